@@ -8,136 +8,240 @@ import PalomaModel.Gen.Auth
 that principal or by an address holding a fee grant from it (or, for batch confirmations,
 carrying the validator's own external-chain signature over the exact item), or by the governance
 authority.  A transaction authorised by account A never adds, alters or removes anything
-attributed to a different principal B."
+attributed to a different principal B."  Quantifier: "for every message type the chain accepts,
+every identity-bearing field inside it, and every choice of signer, claimed creator and named
+principal".
 
-The model (`Model/Auth.lean`) is the authorisation decorator plus, per message type, the
-principal in whose name the handler writes.  The per-type classification is data; the last
-section proves by `decide` that it covers, and is compatible with, what the extractor found in
-the Go source (`Gen/Auth.lean`).
+How the clauses are decided:
+
+* The delivery model (`Model/Auth.lean`: SDK signature check → authorisation decorator, message by
+  message → handlers, atomically) INTERPRETS a per-handler semantics `Sem`.  `genSem` computes that
+  semantics for each of the 41 handlers from facts the extractor reads off the Go source
+  (`Gen/Auth.lean`): use of the creator, comparisons of request fields with the creator / the
+  keeper's authority (unconditional, erroring on mismatch, in the handler, a helper or
+  ValidateBasic), unconditional overwrites, external-signature verification, the identity-like
+  fields (address-typed, parsed as address, named like one), the proto signer option.
+  `handlers_safe` (decide) shows every handler's semantics safe; `change_needs_authorisation`
+  derives the property for ALL handlers from safety — the table → step link is a theorem.
+* What is kept for a principal is a LIST of records and handlers apply arbitrary functions to it,
+  so "adds", "alters", "removes" are distinguishable: `no_cross_principal_alteration` (old records
+  stay in place), `no_cross_principal_write_partial` + the two reachable exceptions of "never adds"
+  (`adds_clause_fails_for_target`, `adds_clause_fails_for_light_node_migration`).
+* Histories: `history_change_attributed`, `grant_provenance`, `history_never_altered`,
+  `history_untouched_partial`, `history_passive_unchanged` — by induction over `run`.
+* The hand-written tables the driver's verdicts use (`rules`, `roles`, `mayTouch`, `sigCheck`,
+  `authorityOkOf`) are tied to the delivery model: `rules_match_source`, `roles_match_source`,
+  `side_tables_sound`, `mayTouch_sound`, `sigCheck_sound`.
+* The denom and batch-confirmation models are related to the generic one by the common predicate
+  `Justified` (`denom_change_justified`, `confirm_change_justified`); key registration is part of
+  the confirmation model (`key_provenance`, `confirm_provenance`, `registered_strings_injective`,
+  and the reachable failure of account-level injectivity `registered_accounts_not_injective`).
+
+External ASSUMPTIONS (named in the docstrings where they enter): SDK signature verification
+(`Tx.signers` signed), ECDSA recovery (`sigKey`), x/feegrant (`Op.grant` is signed by the granter),
+x/gov (`Op.gov` only for passed proposals), baseapp runs ValidateBasic before the ante chain, and
+the trusted readings `notPrincipal` / `target` roles / the footprint of the two `open` handlers.
 -/
 
 namespace Paloma.Auth
 
 section Lemmas
 
-theorem bump_other {slots : Addr → Nat} {a x : Addr} (h : x ≠ a) : bump slots a x = slots x := by
-  simp [bump, h]
+/-! ### who authorised a transaction -/
 
-theorem bump_changed {slots : Addr → Nat} {a x : Addr} (h : bump slots a x ≠ slots x) : x = a := by
-  unfold bump at h
-  split at h
-  · assumption
-  · exact absurd rfl h
+/-- `P` signed the transaction, or one of its signers holds a fee allowance granted by `P` -/
+def SignedOrGranted (grants : Addr → Addr → Bool) (signers : List Addr) (P : Addr) : Prop :=
+  P ∈ signers ∨ ∃ a ∈ signers, grants P a = true
+
+/-- Message `m` of a transaction signed by `signers` is entitled to change what the chain keeps
+for `B` — the three ways the property statement names, independent of any table:
+1. "signed by that principal or by an address holding a fee grant from it": `B` is the creator;
+2. "carrying the validator's own external-chain signature over the exact item": an identity field
+   names `B`, and the signature in the message was made by the key `B` registered over exactly the
+   item the message is about;
+3. "or by the governance authority": the message is sent in the authority's name and the
+   authority signed (or a grantee of it). -/
+def Justified (authority : Addr) (regKey : Addr → Option Nat) (grants : Addr → Addr → Bool)
+    (signers : List Addr) (B : Addr) (m : Msg) : Prop :=
+  (B = m.creator ∧ SignedOrGranted grants signers B)
+  ∨ (∃ f, m.field f = some B ∧ regKey B = some m.sigKey ∧ m.sigItem = m.item)
+  ∨ ((m.creator = authority ∨ m.field "Authority" = some authority) ∧ SignedOrGranted grants signers authority)
+
+/-- The only other way something attributed to `B` appears: `m` NAMES `B` as a beneficiary (a
+`target` field), or `B` is a pending grantee of the light-node feegranter and `m` is the migration
+that registers all of them.  Records are only ever ADDED this way. -/
+def NamedBy (env : Env) (grants : Addr → Addr → Bool) (B : Addr) (m : Msg) : Prop :=
+  ∃ sem, env.semOf m.typ = some sem ∧
+    ((∃ f ∈ sem.targets, m.field f = some B) ∨ (sem.stateKeyed = true ∧ grants env.lightFeegranter B = true))
+
+/-- static soundness conditions on a handler's semantics (decidable; checked for every handler of
+the generated table in `handlers_safe`):
+* every identity field that keys a write is compared with the creator or signature-proven — unless
+  the handler is governance gated;
+* a message type signed by its `Authority` field is gated on that field;
+* a governance-gated, metadata-signed type ties `metadata.creator` to the authority. -/
+def Sem.safe (typ : String) (sem : Sem) : Bool :=
+  (isGov sem || sem.keyed.all (fun f => sem.eqCreator.contains f || sem.sigFields.contains f))
+  && (!authoritySigned.contains typ || sem.eqAuthority.contains "Authority")
+  && (!isGov sem || authoritySigned.contains typ || sem.creatorIsAuthority
+      || sem.eqAuthority.any (fun f => sem.eqCreator.contains f))
+
+def SafeEnv (env : Env) : Prop := ∀ typ sem, env.semOf typ = some sem → Sem.safe typ sem = true
 
 theorem anteOk_iff (m : Msg) (g : Addr → Addr → Bool) :
-    anteOk m g = true ↔ (m.creator ∈ m.signers ∨ ∃ a ∈ m.signers, g m.creator a = true) := by
-  simp [anteOk, List.any_eq_true]
+    anteOk m g = true ↔ SignedOrGranted g m.signers m.creator := by
+  simp [anteOk, SignedOrGranted, List.any_eq_true]
 
-theorem applyRule_grants (cfg : Cfg) (s : State) (m : Msg) (r : Rule) :
-    (applyRule cfg s m r).grants = s.grants := by
-  cases r <;> simp only [applyRule] <;> (try split) <;> rfl
+theorem SignedOrGranted.mono {g : Addr → Addr → Bool} {l l' : List Addr} {P : Addr}
+    (hsub : ∀ a ∈ l, a ∈ l') (h : SignedOrGranted g l P) : SignedOrGranted g l' P := by
+  cases h with
+  | inl h => exact Or.inl (hsub P h)
+  | inr h => obtain ⟨a, ha, hg⟩ := h; exact Or.inr ⟨a, hsub a ha, hg⟩
 
-theorem deliver_grants (cfg : Cfg) (s : State) (m : Msg) : (deliver cfg s m).grants = s.grants := by
-  unfold deliver
-  split
-  · rfl
-  · split
-    · rfl
-    · split
-      · rfl
-      · exact applyRule_grants cfg s m _
+/-- the SDK signature check: everybody a message declares as signer signed the transaction -/
+theorem sigCheckTx_mem {S : List Addr} {decl : List (List Addr)} (h : sigCheckTx S decl = true) :
+    ∀ d ∈ decl, ∀ a ∈ d, a ∈ S := by
+  intro d hd a ha
+  have hS : S = decl.flatten.eraseDups := by simpa [sigCheckTx] using h
+  rw [hS, List.mem_eraseDups]
+  exact List.mem_flatten.2 ⟨d, hd, ha⟩
 
-/-- who is entitled to see its slot change when `m` is delivered -/
-def Authorises (cfg : Cfg) (grants : Addr → Addr → Bool) (B : Addr) (m : Msg) : Prop :=
-  match cfg.ruleOf m.typ with
-  | some .actsFor => B = m.creator ∧ (B ∈ m.signers ∨ ∃ a ∈ m.signers, grants B a = true)
-  | some .authorityOnly => B = cfg.authority ∧ m.creator = cfg.authority ∧ anteOk m grants = true
-  | some (.sigProven f) => B = m.idField f ∧ cfg.sigOk m f = true
-  | some (.open_ _) => True
-  | none => False
+theorem declared_meta {m : Msg} (h : authoritySigned.contains m.typ = false) : declared m = m.signers := by
+  simp only [declared, declaredSigners, h, Bool.false_eq_true, if_false]
 
-/-- the only way a slot changes -/
-theorem deliver_changed (cfg : Cfg) (s : State) (m : Msg) (B : Addr)
-    (h : (deliver cfg s m).slots B ≠ s.slots B) : Authorises cfg s.grants B m := by
-  unfold Authorises
-  by_cases hante : anteOk m s.grants = true
-  · by_cases hh : cfg.handlerOk s m = true
-    · cases hr : cfg.ruleOf m.typ with
-      | none => simp [deliver, hante, hh, hr] at h
-      | some r =>
-        cases r with
-        | actsFor =>
-          simp only [deliver, hante, hh, hr, applyRule] at h
-          have hB : B = m.creator := bump_changed (by simpa using h)
-          subst hB
-          exact ⟨rfl, (anteOk_iff m s.grants).1 hante⟩
-        | authorityOnly =>
-          simp only [deliver, hante, hh, hr, applyRule] at h
-          by_cases hc : m.creator = cfg.authority
-          · simp only [hc, if_true] at h
-            exact ⟨bump_changed (by simpa using h), hc, hante⟩
-          · simp [hc] at h
-        | sigProven f =>
-          simp only [deliver, hante, hh, hr, applyRule] at h
-          by_cases hs : cfg.sigOk m f = true
-          · simp only [hs, if_true] at h
-            exact ⟨bump_changed (by simpa using h), hs⟩
-          · simp [hs] at h
-        | open_ reason => trivial
-    · simp [deliver, hante, hh] at h
-  · simp [deliver, hante] at h
+theorem declared_authority {m : Msg} {a : Addr} (h : authoritySigned.contains m.typ = true)
+    (hf : m.field "Authority" = some a) : declared m = [a] := by
+  simp only [declared, declaredSigners, h, if_true, hf, Option.toList]
 
-/-- handler level: `B` is the principal in whose name the handler of `m` writes -/
-def Writes (cfg : Cfg) (B : Addr) (m : Msg) : Prop :=
-  match cfg.ruleOf m.typ with
-  | some .actsFor => B = m.creator
-  | some .authorityOnly => B = cfg.authority ∧ m.creator = cfg.authority
-  | some (.sigProven f) => B = m.idField f ∧ cfg.sigOk m f = true
-  | some (.open_ _) => True
-  | none => False
+/-! ### handlers -/
 
-theorem handle_grants (cfg : Cfg) (s s' : State) (m : Msg) (h : handle cfg s m = some s') :
-    s'.grants = s.grants := by
+theorem handle_some {env : Env} {s s' : State} {m : Msg} (h : handle env s m = some s') :
+    ∃ sem, env.semOf m.typ = some sem ∧ env.handlerOk s m = true ∧ guardsOk env m sem = true
+      ∧ s' = { s with slots := newSlots env s m sem } := by
   unfold handle at h
   split at h
   · simp at h
-  · split at h
+  · rename_i sem hsem
+    split at h
+    · rename_i hc
+      simp only [Option.some.injEq] at h
+      have hc' : env.handlerOk s m = true ∧ guardsOk env m sem = true := by
+        simpa [Bool.and_eq_true] using hc
+      exact ⟨sem, hsem, hc'.1, hc'.2, h.symm⟩
     · simp at h
-    · split at h
-      · simp at h; rw [← h]; exact applyRule_grants cfg s m _
-      · simp at h
 
-theorem handle_changed (cfg : Cfg) (s s' : State) (m : Msg) (B : Addr)
-    (h : handle cfg s m = some s') (hne : s'.slots B ≠ s.slots B) : Writes cfg B m := by
-  unfold handle at h
-  unfold Writes
-  split at h
-  · simp at h
-  · cases hr : cfg.ruleOf m.typ with
-    | none => simp [hr] at h
-    | some r =>
-      simp only [hr] at h
-      split at h
-      · rename_i hacc
-        simp at h
-        subst h
-        cases r with
-        | actsFor =>
-          simp only [applyRule] at hne
-          exact bump_changed (by simpa using hne)
-        | authorityOnly =>
-          have hc : m.creator = cfg.authority := by simpa [accepts] using hacc
-          simp only [applyRule, hc, if_true] at hne
-          exact ⟨bump_changed (by simpa using hne), hc⟩
-        | sigProven f =>
-          have hs : cfg.sigOk m f = true := by simpa [accepts] using hacc
-          simp only [applyRule, hs, if_true] at hne
-          exact ⟨bump_changed (by simpa using hne), hs⟩
-        | open_ reason => trivial
-      · simp at h
+theorem guardsOk_eqCreator {env : Env} {m : Msg} {sem : Sem} (h : guardsOk env m sem = true) :
+    ∀ f ∈ sem.eqCreator, m.field f = some m.creator := by
+  intro f hf
+  simp only [guardsOk, Bool.and_eq_true, List.all_eq_true] at h
+  simpa using h.1.1.1.1 f hf
 
-theorem handleAll_grants (cfg : Cfg) (ms : List Msg) :
-    ∀ s s' : State, handleAll cfg s ms = some s' → s'.grants = s.grants := by
+theorem guardsOk_eqAuthority {env : Env} {m : Msg} {sem : Sem} (h : guardsOk env m sem = true) :
+    ∀ f ∈ sem.eqAuthority, m.field f = some env.authority := by
+  intro f hf
+  simp only [guardsOk, Bool.and_eq_true, List.all_eq_true] at h
+  simpa using h.1.1.1.2 f hf
+
+theorem guardsOk_creatorIsAuthority {env : Env} {m : Msg} {sem : Sem} (h : guardsOk env m sem = true)
+    (hc : sem.creatorIsAuthority = true) : m.creator = env.authority := by
+  simp only [guardsOk, Bool.and_eq_true] at h
+  simpa [hc] using h.1.1.2
+
+theorem guardsOk_sigFields {env : Env} {m : Msg} {sem : Sem} (h : guardsOk env m sem = true) :
+    ∀ f ∈ sem.sigFields, ∃ p, m.field f = some p ∧ extSigOk env m p = true := by
+  intro f hf
+  simp only [guardsOk, Bool.and_eq_true, List.all_eq_true] at h
+  have := h.1.2 f hf
+  cases hp : m.field f with
+  | none => simp [hp] at this
+  | some p => exact ⟨p, rfl, by simpa [hp] using this⟩
+
+theorem extSigOk_iff (env : Env) (m : Msg) (p : Addr) :
+    extSigOk env m p = true ↔ (env.regKey p = some m.sigKey ∧ m.sigItem = m.item) := by
+  simp [extSigOk]
+
+/-- a principal a safe, non-governance handler writes FOR is the creator, or signature-proven -/
+theorem writeKeys_cases {env : Env} {m : Msg} {sem : Sem} {typ : String} {B : Addr}
+    (hsafe : Sem.safe typ sem = true) (hgov : isGov sem = false) (hg : guardsOk env m sem = true)
+    (hB : B ∈ writeKeys m sem) :
+    B = m.creator ∨ ∃ f ∈ sem.sigFields, m.field f = some B ∧ extSigOk env m B = true := by
+  unfold writeKeys at hB
+  rcases List.mem_append.1 hB with h1 | h2
+  · left
+    split at h1
+    · simpa using h1
+    · simp at h1
+  · obtain ⟨f, hf, hfB⟩ := List.mem_filterMap.1 h2
+    have hk : sem.keyed.all (fun f => sem.eqCreator.contains f || sem.sigFields.contains f) = true := by
+      simp only [Sem.safe, Bool.and_eq_true, hgov, Bool.false_or] at hsafe
+      exact hsafe.1.1
+    have := (List.all_eq_true.1 hk) f hf
+    have this' : sem.eqCreator.contains f = true ∨ sem.sigFields.contains f = true := by
+      simpa [Bool.or_eq_true] using this
+    rcases this' with h3 | h3
+    · left
+      have h4 := guardsOk_eqCreator hg f (by simpa using h3)
+      rw [hfB] at h4
+      exact (Option.some.inj h4)
+    · right
+      have h3' : f ∈ sem.sigFields := by simpa using h3
+      obtain ⟨p, hp, hs⟩ := guardsOk_sigFields hg f h3'
+      rw [hfB] at hp
+      have : B = p := Option.some.inj hp
+      subst this
+      exact ⟨f, h3', hfB, hs⟩
+
+theorem own_other {env : Env} {s : State} {m : Msg} {sem : Sem} {B : Addr} (h : B ∉ writeKeys m sem) :
+    own env s m sem B = s.slots B := by
+  simp [own, h]
+
+theorem added_ne_nil {env : Env} {s : State} {m : Msg} {sem : Sem} {B : Addr}
+    (h : added env s m sem B ≠ []) :
+    (∃ f ∈ sem.targets, m.field f = some B) ∨ (sem.stateKeyed = true ∧ s.grants env.lightFeegranter B = true) := by
+  unfold added at h
+  by_cases h1 : (giftKeys m sem).contains B = true
+  · left
+    have : B ∈ giftKeys m sem := by simpa using h1
+    obtain ⟨f, hf, hfB⟩ := List.mem_filterMap.1 this
+    exact ⟨f, hf, hfB⟩
+  · by_cases h2 : (sem.stateKeyed && s.grants env.lightFeegranter B && env.pending s B) = true
+    · right
+      simp only [Bool.and_eq_true] at h2
+      exact ⟨h2.1.1, h2.1.2⟩
+    · rw [if_neg h1, if_neg h2] at h
+      simp at h
+
+/-- handler level: message `m` was accepted by a handler that writes FOR `B` (or for anybody) -/
+def HWrites (env : Env) (B : Addr) (m : Msg) : Prop :=
+  ∃ sem, env.semOf m.typ = some sem ∧ guardsOk env m sem = true ∧
+    (isGov sem = true ∨ (isGov sem = false ∧ B = m.creator)
+      ∨ (isGov sem = false ∧ ∃ f ∈ sem.sigFields, m.field f = some B ∧ extSigOk env m B = true))
+
+theorem handle_grants {env : Env} {s s' : State} {m : Msg} (h : handle env s m = some s') :
+    s'.grants = s.grants := by
+  obtain ⟨_, _, _, _, rfl⟩ := handle_some h
+  rfl
+
+/-- what an accepted message may do to the records of `B`: it writes for `B`, or it only ADDS
+    records, and then only because it names `B` -/
+theorem handle_account {env : Env} (hsafe : SafeEnv env) {s s' : State} {m : Msg} (B : Addr)
+    (h : handle env s m = some s') :
+    HWrites env B m ∨ ∃ l, s'.slots B = s.slots B ++ l ∧ (l ≠ [] → NamedBy env s.grants B m) := by
+  obtain ⟨sem, hsem, _, hg, rfl⟩ := handle_some h
+  by_cases hgov : isGov sem = true
+  · exact Or.inl ⟨sem, hsem, hg, Or.inl hgov⟩
+  · have hgov' : isGov sem = false := by simpa using hgov
+    by_cases hB : B ∈ writeKeys m sem
+    · left
+      rcases writeKeys_cases (hsafe _ _ hsem) hgov' hg hB with h1 | h1
+      · exact ⟨sem, hsem, hg, Or.inr (Or.inl ⟨hgov', h1⟩)⟩
+      · exact ⟨sem, hsem, hg, Or.inr (Or.inr ⟨hgov', h1⟩)⟩
+    · right
+      refine ⟨added env s m sem B, ?_, fun hne => ⟨sem, hsem, added_ne_nil hne⟩⟩
+      simp only [newSlots, hgov', Bool.false_eq_true, if_false, own_other hB]
+
+theorem handleAll_grants (env : Env) (ms : List Msg) :
+    ∀ s s' : State, handleAll env s ms = some s' → s'.grants = s.grants := by
   induction ms with
   | nil => intro s s' h; simp [handleAll] at h; rw [h]
   | cons m rest ih =>
@@ -146,123 +250,437 @@ theorem handleAll_grants (cfg : Cfg) (ms : List Msg) :
     split at h
     · simp at h
     · rename_i s1 h1
-      rw [ih s1 s' h, handle_grants cfg s s1 m h1]
+      rw [ih s1 s' h, handle_grants h1]
 
-theorem handleAll_changed (cfg : Cfg) (B : Addr) (ms : List Msg) :
-    ∀ s s' : State, handleAll cfg s ms = some s' → s'.slots B ≠ s.slots B → ∃ m ∈ ms, Writes cfg B m := by
+/-- the same for all the messages of a transaction, run in order -/
+theorem handleAll_account {env : Env} (hsafe : SafeEnv env) (B : Addr) (ms : List Msg) :
+    ∀ s s' : State, handleAll env s ms = some s' →
+      (∃ m ∈ ms, HWrites env B m)
+      ∨ ∃ l, s'.slots B = s.slots B ++ l ∧ (l ≠ [] → ∃ m ∈ ms, NamedBy env s.grants B m) := by
   induction ms with
-  | nil => intro s s' h hne; simp [handleAll] at h; subst h; exact absurd rfl hne
+  | nil =>
+    intro s s' h
+    simp only [handleAll, Option.some.injEq] at h
+    subst h
+    exact Or.inr ⟨[], by simp, fun hne => absurd rfl hne⟩
   | cons m rest ih =>
-    intro s s' h hne
+    intro s s' h
     simp only [handleAll] at h
     split at h
     · simp at h
     · rename_i s1 h1
-      by_cases h0 : s1.slots B = s.slots B
-      · have hne' : s'.slots B ≠ s1.slots B := by rw [h0]; exact hne
-        obtain ⟨m', hm', hw⟩ := ih s1 s' h hne'
-        exact ⟨m', by simp [hm'], hw⟩
-      · exact ⟨m, by simp, handle_changed cfg s s1 m B h1 h0⟩
+      rcases handle_account hsafe B h1 with hw | ⟨l1, hl1, hn1⟩
+      · exact Or.inl ⟨m, by simp, hw⟩
+      · rcases ih s1 s' h with ⟨m', hm', hw⟩ | ⟨l2, hl2, hn2⟩
+        · exact Or.inl ⟨m', by simp [hm'], hw⟩
+        · right
+          refine ⟨l1 ++ l2, by rw [hl2, hl1, List.append_assoc], fun hne => ?_⟩
+          by_cases h1e : l1 = []
+          · have h2e : l2 ≠ [] := by
+              intro h2e; apply hne; simp [h1e, h2e]
+            obtain ⟨m', hm', hnb⟩ := hn2 h2e
+            rw [handle_grants h1] at hnb
+            exact ⟨m', by simp [hm'], hnb⟩
+          · exact ⟨m, by simp, hn1 h1e⟩
 
-theorem deliverTx_grants (cfg : Cfg) (s : State) (ms : List Msg) : (deliverTx cfg s ms).grants = s.grants := by
-  unfold deliverTx
+/-- from the handler's comparisons to the signers of the transaction -/
+theorem hwrites_justified {env : Env} (hsafe : SafeEnv env) {grants : Addr → Addr → Bool} {signers : List Addr}
+    {B : Addr} {m : Msg} (hante : anteOk m grants = true) (hdecl : ∀ a ∈ declared m, a ∈ signers)
+    (hw : HWrites env B m) : Justified env.authority env.regKey grants signers B m := by
+  obtain ⟨sem, hsem, hg, hcase⟩ := hw
+  have hs := hsafe _ _ hsem
+  simp only [Sem.safe, Bool.and_eq_true] at hs
+  obtain ⟨⟨_, hs2⟩, hs3⟩ := hs
+  have hso := (anteOk_iff m grants).1 hante
+  -- a type signed by its Authority field is governance gated
+  have hmeta : isGov sem = false → declared m = m.signers := by
+    intro hgov
+    apply declared_meta
+    cases hc : authoritySigned.contains m.typ with
+    | false => rfl
+    | true =>
+      exfalso
+      simp only [hc, Bool.not_true, Bool.false_or] at hs2
+      have hmem : "Authority" ∈ sem.eqAuthority := by simpa using hs2
+      have hne : sem.eqAuthority ≠ [] := fun h => by rw [h] at hmem; simp at hmem
+      have : isGov sem = true := by
+        simp only [isGov, Bool.or_eq_true, Bool.not_eq_true', List.isEmpty_eq_false_iff]
+        exact Or.inr hne
+      rw [hgov] at this
+      exact Bool.false_ne_true this
+  rcases hcase with hgov | ⟨hgov, hB⟩ | ⟨_, f, _, hf, hsig⟩
+  · -- governance gated
+    right; right
+    cases hc : authoritySigned.contains m.typ with
+    | true =>
+      simp only [hc, Bool.not_true, Bool.false_or] at hs2
+      have hfa := guardsOk_eqAuthority hg "Authority" (by simpa using hs2)
+      have hd := declared_authority hc hfa
+      exact ⟨Or.inr hfa, Or.inl (hdecl _ (by rw [hd]; simp))⟩
+    | false =>
+      simp only [hgov, hc, Bool.not_true, Bool.false_or, Bool.or_eq_true, List.any_eq_true] at hs3
+      have hcr : m.creator = env.authority := by
+        rcases hs3 with h | ⟨f, hf, hfc⟩
+        · exact guardsOk_creatorIsAuthority hg h
+        · have h1 := guardsOk_eqAuthority hg f hf
+          have h2 := guardsOk_eqCreator hg f (by simpa using hfc)
+          rw [h1] at h2
+          exact (Option.some.inj h2).symm
+      refine ⟨Or.inl hcr, ?_⟩
+      rw [← hcr]
+      exact SignedOrGranted.mono (by rw [declared_meta hc] at hdecl; exact hdecl) hso
+  · left
+    subst hB
+    exact ⟨rfl, SignedOrGranted.mono (by rw [hmeta hgov] at hdecl; exact hdecl) hso⟩
+  · right; left
+    exact ⟨f, hf, (extSigOk_iff env m B).1 hsig⟩
+
+/-! ### transactions -/
+
+theorem deliverTx_cases (env : Env) (s : State) (tx : Tx) :
+    (txAccepted env s tx = false ∧ deliverTx env s tx = s)
+    ∨ (txAccepted env s tx = true ∧ tx.msgs ≠ [] ∧ sigCheckTx tx.signers (tx.msgs.map declared) = true
+        ∧ anteOkTx tx.msgs s.grants = true ∧ handleAll env s tx.msgs = some (deliverTx env s tx)) := by
+  unfold deliverTx txAccepted
+  by_cases h0 : tx.msgs.isEmpty = true
+  · left; simp [h0]
+  · by_cases h1 : sigCheckTx tx.signers (tx.msgs.map declared) = true
+    · by_cases h2 : anteOkTx tx.msgs s.grants = true
+      · cases h3 : handleAll env s tx.msgs with
+        | none => left; simp [h0, h1, h2]
+        | some s' =>
+          right
+          have hne : tx.msgs ≠ [] := by simpa using h0
+          simp [h0, h1, h2, hne]
+      · left; simp [h0, h1, h2]
+    · left; simp [h0, h1]
+
+theorem deliverTx_grants (env : Env) (s : State) (tx : Tx) : (deliverTx env s tx).grants = s.grants := by
+  rcases deliverTx_cases env s tx with ⟨_, h⟩ | ⟨_, _, _, _, h⟩
+  · rw [h]
+  · exact handleAll_grants env tx.msgs s _ h
+
+/-- Transaction level, for ANY table of safe handler semantics: if delivering `tx` changes what
+is kept for `B`, then `tx` was accepted and either one of its messages is `Justified` for `B`, or
+records were only ADDED for `B`, by a message that names it. -/
+theorem deliverTx_account {env : Env} (hsafe : SafeEnv env) (s : State) (tx : Tx) (B : Addr)
+    (h : (deliverTx env s tx).slots B ≠ s.slots B) :
+    txAccepted env s tx = true ∧
+    ((∃ m ∈ tx.msgs, Justified env.authority env.regKey s.grants tx.signers B m)
+     ∨ ((∃ l, l ≠ [] ∧ (deliverTx env s tx).slots B = s.slots B ++ l)
+        ∧ ∃ m ∈ tx.msgs, NamedBy env s.grants B m)) := by
+  rcases deliverTx_cases env s tx with ⟨_, h0⟩ | ⟨hacc, _, hsig, hante, hall⟩
+  · rw [h0] at h; exact absurd rfl h
+  · refine ⟨hacc, ?_⟩
+    rcases handleAll_account hsafe B tx.msgs s _ hall with ⟨m, hm, hw⟩ | ⟨l, hl, hn⟩
+    · left
+      refine ⟨m, hm, hwrites_justified hsafe ?_ ?_ hw⟩
+      · exact (List.all_eq_true.1 hante) m hm
+      · exact sigCheckTx_mem hsig (declared m) (List.mem_map.2 ⟨m, hm, rfl⟩)
+    · right
+      have hne : l ≠ [] := by
+        intro hnil; apply h; rw [hl, hnil]; simp
+      exact ⟨⟨l, hne, hl⟩, hn hne⟩
+
+/-! ### histories -/
+
+theorem run_cons (env : Env) (s : State) (op : Op) (ops : List Op) :
+    run env s (op :: ops) = run env (step env s op) ops := rfl
+
+theorem run_append (env : Env) (s : State) (a b : List Op) :
+    run env s (a ++ b) = run env (run env s a) b := by
+  simp [run, List.foldl_append]
+
+theorem step_slots_of_not_tx {env : Env} {s : State} {op : Op} {B : Addr}
+    (h : (step env s op).slots B ≠ s.slots B) : (∃ t, op = Op.tx t) ∨ (∃ m, op = Op.gov m) := by
+  cases op with
+  | grant a b => exact absurd rfl h
+  | revoke a b => exact absurd rfl h
+  | tx t => exact Or.inl ⟨t, rfl⟩
+  | gov m => exact Or.inr ⟨m, rfl⟩
+
+theorem deliverGov_grants (env : Env) (s : State) (m : Msg) : (deliverGov env s m).grants = s.grants := by
+  unfold deliverGov
   split
   · rfl
-  · split
-    · rfl
-    · rename_i s' h; exact handleAll_grants cfg ms s s' h
+  · rename_i s' h; exact handle_grants h
 
-/-- is principal `B` involved in message `m`?  (everything that could entitle a change of `B`'s
-    slot when `B` has no outstanding fee grants) -/
-def InvolvesMsg (cfg : Cfg) (B : Addr) (m : Msg) : Prop :=
-  B ∈ m.signers
-  ∨ (∃ f, cfg.ruleOf m.typ = some (.sigProven f) ∧ m.idField f = B ∧ cfg.sigOk m f = true)
-  ∨ (cfg.ruleOf m.typ = some .authorityOnly ∧ B = cfg.authority)
-  ∨ (∃ r, cfg.ruleOf m.typ = some (.open_ r))
+/-- is `op` the revocation of the allowance `P → a`? -/
+def isRevokeOf (P a : Addr) : Op → Prop
+  | .revoke x y => x = P ∧ y = a
+  | _ => False
 
-/-- is principal `B` involved in `op`? -/
-def Involves (cfg : Cfg) (B : Addr) : Op → Prop
-  | .grant g _ => g = B
-  | .revoke _ _ => False
-  | .tx m => InvolvesMsg cfg B m
-  | .mtx ms => ∃ m ∈ ms, InvolvesMsg cfg B m
+/-- every change of `B`'s records in a history happens in ONE operation of that history -/
+theorem run_changed_split (env : Env) (B : Addr) :
+    ∀ (ops : List Op) (s : State), (run env s ops).slots B ≠ s.slots B →
+      ∃ pre op post, ops = pre ++ op :: post
+        ∧ (step env (run env s pre) op).slots B ≠ (run env s pre).slots B := by
+  intro ops
+  induction ops with
+  | nil => intro s h; exact absurd rfl h
+  | cons op rest ih =>
+    intro s h
+    by_cases h1 : (step env s op).slots B = s.slots B
+    · rw [run_cons] at h
+      have h' : (run env (step env s op) rest).slots B ≠ (step env s op).slots B := by rw [h1]; exact h
+      obtain ⟨pre, o, post, hops, hch⟩ := ih (step env s op) h'
+      exact ⟨op :: pre, o, post, by rw [hops]; rfl, by rw [run_cons]; exact hch⟩
+    · exact ⟨[], op, rest, rfl, h1⟩
 
-/-- a message that passed the decorator and writes for `B` involves `B` (given `B` granted nothing) -/
-theorem writes_involves (cfg : Cfg) (g : Addr → Addr → Bool) (B : Addr) (m : Msg)
-    (hg : ∀ e, g B e = false) (hante : anteOk m g = true) (hw : Writes cfg B m) : InvolvesMsg cfg B m := by
-  unfold Writes at hw
-  unfold InvolvesMsg
-  split at hw
-  · subst hw
-    cases (anteOk_iff m g).1 hante with
-    | inl h => exact Or.inl h
-    | inr h => obtain ⟨a, _, hga⟩ := h; simp [hg a] at hga
-  · rename_i hr
-    exact Or.inr (Or.inr (Or.inl ⟨hr, hw.1⟩))
-  · rename_i f hr
-    exact Or.inr (Or.inl ⟨f, hr, hw.1.symm, hw.2⟩)
-  · rename_i r hr
-    exact Or.inr (Or.inr (Or.inr ⟨r, hr⟩))
-  · exact absurd hw id
+/-! ### the handler semantics computed from the source (`Gen/Auth.lean`) -/
 
-theorem step_keeps (cfg : Cfg) (s : State) (op : Op) (B : Addr)
-    (hg : ∀ e, s.grants B e = false) (hop : ¬ Involves cfg B op) :
-    (step cfg s op).slots B = s.slots B ∧ ∀ e, (step cfg s op).grants B e = false := by
-  cases op with
-  | grant a b =>
-    simp only [Involves] at hop
-    refine ⟨rfl, fun e => ?_⟩
-    simp only [step, setGrant]
-    split
-    · rename_i h; exact absurd h.1.symm hop
-    · exact hg e
-  | revoke a b =>
-    refine ⟨rfl, fun e => ?_⟩
-    simp only [step, setGrant]
-    split
-    · rfl
-    · exact hg e
-  | tx m =>
-    simp only [Involves] at hop
-    refine ⟨?_, fun e => by simp only [step, deliver_grants]; exact hg e⟩
-    simp only [step]
-    apply Classical.byContradiction
-    intro hne
-    have ha := deliver_changed cfg s m B hne
-    apply hop
-    unfold Authorises at ha
-    unfold InvolvesMsg
-    split at ha
-    · obtain ⟨_, h2⟩ := ha
-      cases h2 with
-      | inl h => exact Or.inl h
-      | inr h => obtain ⟨a, _, hga⟩ := h; simp [hg a] at hga
-    · rename_i hr
-      exact Or.inr (Or.inr (Or.inl ⟨hr, ha.1⟩))
-    · rename_i f hr
-      exact Or.inr (Or.inl ⟨f, hr, ha.1.symm, ha.2⟩)
-    · rename_i r hr
-      exact Or.inr (Or.inr (Or.inr ⟨r, hr⟩))
-    · exact absurd ha id
-  | mtx ms =>
-    simp only [Involves] at hop
-    refine ⟨?_, fun e => by simp only [step, deliverTx_grants]; exact hg e⟩
-    simp only [step]
-    apply Classical.byContradiction
-    intro hne
-    unfold deliverTx at hne
-    split at hne
-    · exact hne rfl
-    · rename_i hante
-      have hall : anteOkTx ms s.grants = true := by simpa using hante
-      split at hne
-      · exact hne rfl
-      · rename_i s' hs'
-        obtain ⟨m, hm, hw⟩ := handleAll_changed cfg B ms s s' hs' hne
-        have hm_ante : anteOk m s.grants = true := by
-          unfold anteOkTx at hall
-          exact (List.all_eq_true.1 hall) m hm
-        exact hop ⟨m, hm, writes_involves cfg s.grants B m hg hm_ante hw⟩
+open Paloma.Gen.Auth in
+/-- name used by the tables and the Go zoo -/
+def hname (h : Handler) : String := h.module ++ "." ++ h.method
+
+def isNotPrincipal (typ field : String) : Bool :=
+  notPrincipal.any (fun e => e.1 == typ && e.2.1 == field)
+
+open Paloma.Gen.Auth in
+/-- request fields whose principal must have made the external-chain signature: role `sigProven`,
+    denoting a paloma principal -/
+def genSigs (h : Handler) : List String :=
+  (h.fields.map (·.1)).filter (fun f => roleOf (hname h) f == some .sigProven && !isNotPrincipal (hname h) f)
+
+open Paloma.Gen.Auth in
+/-- The authorisation semantics of a handler, computed from what the extractor found in its Go
+source: `usesCreator`, the comparisons (`eqCreator`, `eqAuthority`, with `Metadata.Creator` in
+`eqAuthority` meaning creator = authority), the unconditional overwrites (`setFromCreator`), whether
+an external-chain signature is verified (`extSig`), and the identity-like fields (`idFields`:
+address-typed, parsed as an address, or named like one).  Hand-written input: which identity-like
+fields are beneficiaries (`roles`: `target`), which are signature-proven (`roles`: `sigProven`),
+which are no paloma principals (`notPrincipal`), and that the light-node migration is state keyed.
+An identity-like field that is none of these KEYS A WRITE — and must then be guarded (`Sem.safe`). -/
+def genSem (h : Handler) : Sem :=
+  { usesCreator := h.usesCreator,
+    keyed := (h.idFields.filter (fun f => !isNotPrincipal (hname h) f && !h.setFromCreator.contains f
+                && roleOf (hname h) f != some .target && !(genSigs h).contains f)) ++ genSigs h,
+    eqCreator := h.eqCreator,
+    sigFields := if h.extSig then genSigs h else [],
+    eqAuthority := h.eqAuthority.filter (· != "Metadata.Creator"),
+    creatorIsAuthority := h.eqAuthority.contains "Metadata.Creator",
+    targets := (h.fields.map (·.1)).filter (fun f => roleOf (hname h) f == some .target),
+    stateKeyed := hname h == legacyType }
+
+open Paloma.Gen.Auth in
+/-- the table the delivery functions are instantiated with -/
+def semOfGen (typ : String) : Option Sem := (handlers.find? (fun h => hname h == typ)).map genSem
+
+open Paloma.Gen.Auth in
+theorem semOfGen_some {typ : String} {sem : Sem} (h : semOfGen typ = some sem) :
+    ∃ hd ∈ handlers, hname hd = typ ∧ genSem hd = sem := by
+  unfold semOfGen at h
+  cases hf : handlers.find? (fun h => hname h == typ) with
+  | none => simp [hf] at h
+  | some hd =>
+    simp only [hf, Option.map_some, Option.some.injEq] at h
+    have h1 := List.find?_some hf
+    exact ⟨hd, List.mem_of_find?_eq_some hf, by simpa using h1, h⟩
+
+open Paloma.Gen.Auth in
+/-- rule of the hand-written table as computed from the handler's semantics -/
+def ruleAgrees (h : Handler) : Bool :=
+  let sem := genSem h
+  match ruleOf (hname h) with
+  | some .authorityOnly => isGov sem && h.authorityCheck
+  | some (.sigProven _) => !isGov sem && !sem.sigFields.isEmpty && !sem.usesCreator
+  | some .actsFor => !isGov sem && sem.sigFields.isEmpty && !sem.stateKeyed
+      && (sem.usesCreator || sem.keyed.any (fun f => sem.eqCreator.contains f))
+  | some (.open_ _) => !isGov sem && sem.sigFields.isEmpty && !sem.usesCreator && sem.keyed.isEmpty
+  | none => false
+
+open Paloma.Gen.Auth in
+/-- role of every field against the source -/
+def roleAgrees (h : Handler) : Bool :=
+  h.fields.all fun f =>
+    match roleOf (hname h) f.1 with
+    | none => false
+    | some .equatedWithCreator =>
+      h.eqCreator.contains f.1 || h.setFromCreator.contains f.1 || equatedByLookup.contains (hname h, f.1)
+    | some .authorityField => h.eqAuthority.contains f.1 && !h.eqCreator.contains f.1
+    | some .sigProven => h.extSig
+    | some .target => true
+    | some .freeText =>
+      -- an identity-like field is never free text, unless it is listed as no paloma principal
+      (!h.idFields.contains f.1 || isNotPrincipal (hname h) f.1)
+      && !h.eqCreator.contains f.1 && !h.setFromCreator.contains f.1 && !h.eqAuthority.contains f.1
+
+open Paloma.Gen.Auth in
+set_option maxRecDepth 100000 in
+/-- every handler of the generated table has safe semantics (the check that fails when a handler
+    starts keying a write by an identity field it does not compare with the creator — the defect
+    class of the pinned tree: claims cast for `Orchestrator`, fees set for `FeeSetting.ValAddress`) -/
+theorem handlers_safe_all : handlers.all (fun h => (genSem h).safe (hname h)) = true := by decide
+
+theorem safeEnv_gen {env : Env} (h : env.semOf = semOfGen) : SafeEnv env := by
+  intro typ sem hs
+  rw [h] at hs
+  obtain ⟨hd, hmem, hn, hg⟩ := semOfGen_some hs
+  have := (List.all_eq_true.1 handlers_safe_all) hd hmem
+  rw [hn, hg] at this
+  exact this
+
+/-- `NamedBy` for the real table, in terms of the hand-written role table: a field of role `target`
+    names `B`, or the message is the light-node migration and `B` holds a grant from the
+    light-node feegranter -/
+def Named (feegranter : Addr) (grants : Addr → Addr → Bool) (B : Addr) (m : Msg) : Prop :=
+  (∃ f, roleOf m.typ f = some .target ∧ m.field f = some B)
+  ∨ (m.typ = legacyType ∧ grants feegranter B = true)
+
+theorem named_of_namedBy {env : Env} (hsem : env.semOf = semOfGen) {grants : Addr → Addr → Bool} {B : Addr} {m : Msg}
+    (h : NamedBy env grants B m) : Named env.lightFeegranter grants B m := by
+  obtain ⟨sem, hs, hcase⟩ := h
+  rw [hsem] at hs
+  obtain ⟨hd, _, hn, hg⟩ := semOfGen_some hs
+  subst hg
+  rcases hcase with ⟨f, hf, hfB⟩ | ⟨hst, hgr⟩
+  · left
+    simp only [genSem, List.mem_filter] at hf
+    refine ⟨f, ?_, hfB⟩
+    rw [← hn]
+    simpa using hf.2
+  · right
+    simp only [genSem] at hst
+    refine ⟨?_, hgr⟩
+    rw [← hn]
+    simpa using hst
+
+theorem not_justified_of {authority : Addr} {regKey : Addr → Option Nat} {grants : Addr → Addr → Bool}
+    {signers : List Addr} {B : Addr} {m : Msg}
+    (hB : ¬ SignedOrGranted grants signers B)
+    (hsig : ∀ f, m.field f = some B → regKey B ≠ some m.sigKey ∨ m.sigItem ≠ m.item)
+    (hgov : ¬ SignedOrGranted grants signers authority) :
+    ¬ Justified authority regKey grants signers B m := by
+  intro h
+  rcases h with ⟨_, h⟩ | ⟨f, hf, hk, hi⟩ | ⟨_, h⟩
+  · exact hB h
+  · rcases hsig f hf with h | h
+    · exact h hk
+    · exact h hi
+  · exact hgov h
+
+/-- grants are changed by grant / revoke operations only -/
+theorem step_grants_tx (env : Env) (s : State) (t : Tx) : (step env s (.tx t)).grants = s.grants :=
+  deliverTx_grants env s t
+
+theorem step_grants_gov (env : Env) (s : State) (m : Msg) : (step env s (.gov m)).grants = s.grants :=
+  deliverGov_grants env s m
+
+theorem run_grants_provenance (env : Env) (P a : Addr) :
+    ∀ (ops : List Op) (s : State), (run env s ops).grants P a = true →
+      (s.grants P a = true ∧ ∀ o ∈ ops, ¬ isRevokeOf P a o)
+      ∨ ∃ pre post, ops = pre ++ Op.grant P a :: post ∧ ∀ o ∈ post, ¬ isRevokeOf P a o := by
+  intro ops
+  induction ops with
+  | nil => intro s h; exact Or.inl ⟨h, fun o ho => by simp at ho⟩
+  | cons op rest ih =>
+    intro s h
+    rw [run_cons] at h
+    rcases ih (step env s op) h with ⟨hg, hno⟩ | ⟨pre, post, hops, hno⟩
+    · cases op with
+      | grant x y =>
+        by_cases hxy : x = P ∧ y = a
+        · right
+          obtain ⟨rfl, rfl⟩ := hxy
+          exact ⟨[], rest, rfl, hno⟩
+        · left
+          simp only [step, setGrant] at hg
+          refine ⟨?_, ?_⟩
+          · split at hg
+            · rename_i hc; exact absurd ⟨hc.1.symm, hc.2.symm⟩ hxy
+            · exact hg
+          · intro o ho
+            rcases List.mem_cons.1 ho with rfl | ho
+            · simp [isRevokeOf]
+            · exact hno o ho
+      | revoke x y =>
+        simp only [step, setGrant] at hg
+        split at hg
+        · exact absurd hg (by simp)
+        · rename_i hc
+          left
+          refine ⟨hg, ?_⟩
+          intro o ho
+          rcases List.mem_cons.1 ho with rfl | ho
+          · simp only [isRevokeOf]
+            intro hh; exact hc ⟨hh.1.symm, hh.2.symm⟩
+          · exact hno o ho
+      | tx t =>
+        left
+        rw [step_grants_tx] at hg
+        refine ⟨hg, ?_⟩
+        intro o ho
+        rcases List.mem_cons.1 ho with rfl | ho
+        · simp [isRevokeOf]
+        · exact hno o ho
+      | gov m =>
+        left
+        rw [step_grants_gov] at hg
+        refine ⟨hg, ?_⟩
+        intro o ho
+        rcases List.mem_cons.1 ho with rfl | ho
+        · simp [isRevokeOf]
+        · exact hno o ho
+    · right
+      exact ⟨op :: pre, post, by rw [hops]; rfl, hno⟩
+
+/-- generic history invariant: while no transaction is `Justified` for `B`, its records survive
+    as a prefix -/
+theorem run_prefix {env : Env} (hsafe : SafeEnv env) (B : Addr) :
+    ∀ (ops : List Op) (s : State), (∀ m, Op.gov m ∉ ops) →
+      (∀ pre t post, ops = pre ++ Op.tx t :: post →
+        ∀ m ∈ t.msgs, ¬ Justified env.authority env.regKey (run env s pre).grants t.signers B m) →
+      ∃ l, (run env s ops).slots B = s.slots B ++ l := by
+  intro ops
+  induction ops with
+  | nil => intro s _ _; exact ⟨[], by simp [run]⟩
+  | cons op rest ih =>
+    intro s hnogov hno
+    have hrest : ∃ l, (run env (step env s op) rest).slots B = (step env s op).slots B ++ l := by
+      apply ih
+      · intro m hm; exact hnogov m (by simp [hm])
+      intro pre t post hops m hm
+      have := hno (op :: pre) t post (by rw [hops]; rfl) m hm
+      rwa [run_cons] at this
+    obtain ⟨l2, hl2⟩ := hrest
+    have hstep : ∃ l, (step env s op).slots B = s.slots B ++ l := by
+      by_cases hch : (step env s op).slots B = s.slots B
+      · exact ⟨[], by rw [hch]; simp⟩
+      · rcases step_slots_of_not_tx hch with ⟨t, rfl⟩ | ⟨m, rfl⟩
+        · rcases (deliverTx_account hsafe s t B hch).2 with ⟨m, hm, hj⟩ | ⟨⟨l, _, hl⟩, _⟩
+          · exact absurd hj (hno [] t rest rfl m hm)
+          · exact ⟨l, hl⟩
+        · exact absurd (by simp) (hnogov m)
+    obtain ⟨l1, hl1⟩ := hstep
+    exact ⟨l1 ++ l2, by rw [run_cons, hl2, hl1, List.append_assoc]⟩
+
+/-- … and while, in addition, no transaction names `B`, nothing of `B`'s changes at all -/
+theorem run_unchanged {env : Env} (hsafe : SafeEnv env) (B : Addr) :
+    ∀ (ops : List Op) (s : State), (∀ m, Op.gov m ∉ ops) →
+      (∀ pre t post, ops = pre ++ Op.tx t :: post →
+        ∀ m ∈ t.msgs, ¬ Justified env.authority env.regKey (run env s pre).grants t.signers B m
+          ∧ ¬ NamedBy env (run env s pre).grants B m) →
+      (run env s ops).slots B = s.slots B := by
+  intro ops
+  induction ops with
+  | nil => intro s _ _; rfl
+  | cons op rest ih =>
+    intro s hnogov hno
+    have hrest : (run env (step env s op) rest).slots B = (step env s op).slots B := by
+      apply ih
+      · intro m hm; exact hnogov m (by simp [hm])
+      intro pre t post hops m hm
+      have := hno (op :: pre) t post (by rw [hops]; rfl) m hm
+      rwa [run_cons] at this
+    have hstep : (step env s op).slots B = s.slots B := by
+      apply Classical.byContradiction
+      intro hch
+      rcases step_slots_of_not_tx hch with ⟨t, rfl⟩ | ⟨m, rfl⟩
+      · rcases (deliverTx_account hsafe s t B hch).2 with ⟨m, hm, hj⟩ | ⟨_, m, hm, hn⟩
+        · exact (hno [] t rest rfl m hm).1 hj
+        · exact (hno [] t rest rfl m hm).2 hn
+      · exact absurd (by simp) (hnogov m)
+    rw [run_cons, hrest, hstep]
 
 /-! ### Transferable ownership (denoms) -/
 
@@ -377,21 +795,19 @@ theorem dStep_keeps (namer : Nat → Addr) (s : DState) (op : DOp) (d : Nat) (P 
 
 /-! ### Batch confirmations -/
 
-/-- a stored confirmation is backed: it names the key the validator it is filed under registered,
-    and carries that key's signature over exactly the batch it confirms -/
-def CBacked (regKey : Addr → Option Nat) (c : CConfirm) : Prop :=
-  regKey c.orch = some c.key ∧ c.sigKey = c.key ∧ c.sigItem = c.batch
-
-/-- the only way the handler stores something: the new confirmation is appended, is filed under
-    the attempt's orchestrator and is backed -/
-theorem cHandle_some (regKey : Addr → Option Nat) (s s' : CState) (a : CAttempt)
-    (h : cHandle regKey s a = some s') :
-    ∃ c, s'.confirms = s.confirms ++ [c] ∧ s'.grants = s.grants ∧ c.orch = a.orch ∧ c.batch = a.batch
-      ∧ c.sigKey = a.sigKey ∧ c.sigItem = a.sigItem ∧ CBacked regKey c := by
+/-- what the handler stores: the new confirmation is appended, filed under the attempt's
+    orchestrator, and the attempt carries a signature by the key that orchestrator registered, over
+    exactly the batch -/
+theorem cHandle_some {s s' : CState} {a : CAttempt} (h : cHandle s a = some s') :
+    s' = { s with confirms := s.confirms ++ [⟨a.batch, a.orch, a.ethSigner, a.sigKey, a.sigItem⟩] }
+      ∧ a.batchExists = true ∧ regAcct s a.orch = some a.sigKey ∧ a.sigKey = a.ethSigner ∧ a.sigItem = a.batch
+      ∧ s.confirms.any (fun c => c.batch == a.batch && c.orch == a.orch) = false
+      ∧ s.confirms.any (fun c => c.batch == a.batch && c.key == a.ethSigner) = false := by
   unfold cHandle at h
   split at h
   · simp at h
-  · split at h
+  · rename_i hb
+    split at h
     · simp at h
     · rename_i hreg
       split at h
@@ -402,18 +818,18 @@ theorem cHandle_some (regKey : Addr → Option Nat) (s s' : CState) (a : CAttemp
         · rename_i hi
           split at h
           · simp at h
-          · split at h
+          · rename_i hd1
+            split at h
             · simp at h
-            · simp at h
-              subst h
-              refine ⟨⟨a.batch, a.orch, a.ethSigner, a.sigKey, a.sigItem⟩, rfl, rfl, rfl, rfl, rfl, rfl, ?_⟩
-              refine ⟨?_, ?_, ?_⟩
-              · simpa using hreg
-              · simpa using hk
-              · simpa using hi
+            · rename_i hd2
+              simp only [Option.some.injEq] at h
+              have hreg' : regAcct s a.orch = some a.ethSigner := by simpa using hreg
+              have hk' : a.sigKey = a.ethSigner := by simpa using hk
+              refine ⟨h.symm, by simpa using hb, by rw [hreg', hk'], hk', by simpa using hi,
+                by simpa using hd1, by simpa using hd2⟩
 
-theorem cDeliver_cases (regKey : Addr → Option Nat) (s : CState) (a : CAttempt) :
-    cDeliver regKey s a = s ∨ (cAnteOk a s.grants = true ∧ ∃ s', cHandle regKey s a = some s' ∧ cDeliver regKey s a = s') := by
+theorem cDeliver_cases (s : CState) (a : CAttempt) :
+    cDeliver s a = s ∨ (cAnteOk a s.grants = true ∧ ∃ s', cHandle s a = some s' ∧ cDeliver s a = s') := by
   unfold cDeliver
   split
   · exact Or.inl rfl
@@ -423,142 +839,536 @@ theorem cDeliver_cases (regKey : Addr → Option Nat) (s : CState) (a : CAttempt
     · rename_i s' hs'
       exact Or.inr ⟨by simpa using hante, s', hs', rfl⟩
 
-theorem cDeliver_prefix (regKey : Addr → Option Nat) (s : CState) (a : CAttempt) :
-    ∃ l, (cDeliver regKey s a).confirms = s.confirms ++ l := by
-  cases cDeliver_cases regKey s a with
-  | inl h => exact ⟨[], by rw [h]; simp⟩
-  | inr h =>
-    obtain ⟨_, s', hs', hd⟩ := h
-    obtain ⟨c, hc, _⟩ := cHandle_some regKey s s' a hs'
-    exact ⟨[c], by rw [hd, hc]⟩
+theorem cAnteOk_iff (a : CAttempt) (g : Addr → Addr → Bool) :
+    cAnteOk a g = true ↔ SignedOrGranted g a.signers a.creator := by
+  simp [cAnteOk, SignedOrGranted, List.any_eq_true]
 
-theorem cDeliver_backed (regKey : Addr → Option Nat) (s : CState) (a : CAttempt)
-    (hinv : ∀ c ∈ s.confirms, CBacked regKey c) : ∀ c ∈ (cDeliver regKey s a).confirms, CBacked regKey c := by
-  intro c hc
-  cases cDeliver_cases regKey s a with
-  | inl h => rw [h] at hc; exact hinv c hc
-  | inr h =>
-    obtain ⟨_, s', hs', hd⟩ := h
-    obtain ⟨c', hc', _, _, _, _, _, hbk⟩ := cHandle_some regKey s s' a hs'
-    rw [hd, hc'] at hc
-    cases List.mem_append.1 hc with
-    | inl h => exact hinv c h
-    | inr h =>
-      have : c = c' := by simpa using h
-      subst this; exact hbk
+theorem cRegAnteOk_iff (r : CReg) (g : Addr → Addr → Bool) :
+    cRegAnteOk r g = true ↔ SignedOrGranted g r.signers r.creator := by
+  simp [cRegAnteOk, SignedOrGranted, List.any_eq_true]
+
+theorem cDeliver_keys (s : CState) (a : CAttempt) : (cDeliver s a).keys = s.keys ∧ (cDeliver s a).grants = s.grants := by
+  rcases cDeliver_cases s a with h | ⟨_, s', hs', hd⟩
+  · rw [h]; exact ⟨rfl, rfl⟩
+  · rw [hd, (cHandle_some hs').1]; exact ⟨rfl, rfl⟩
+
+theorem cDeliver_prefix (s : CState) (a : CAttempt) :
+    ∃ l, (cDeliver s a).confirms = s.confirms ++ l := by
+  rcases cDeliver_cases s a with h | ⟨_, s', hs', hd⟩
+  · exact ⟨[], by rw [h]; simp⟩
+  · exact ⟨[_], by rw [hd, (cHandle_some hs').1]⟩
+
+theorem cRegister_some {vals : List Addr} {s s' : CState} {r : CReg} (h : cRegister vals s r = some s') :
+    r.creator ∈ vals ∧ (∀ w ∈ vals, w ≠ r.creator → s.keys w ≠ some r.addr)
+      ∧ s' = { s with keys := fun v => if v = r.creator then some r.addr else s.keys v } := by
+  unfold cRegister at h
+  split at h
+  · simp at h
+  · rename_i hv
+    split at h
+    · simp at h
+    · rename_i hc
+      simp only [Option.some.injEq] at h
+      refine ⟨by simpa using hv, ?_, h.symm⟩
+      intro w hw hne hk
+      apply hc
+      exact List.any_eq_true.2 ⟨w, hw, by simp [hne, hk]⟩
+
+theorem cRegDeliver_cases (vals : List Addr) (s : CState) (r : CReg) :
+    cRegDeliver vals s r = s
+    ∨ (cRegAnteOk r s.grants = true ∧ ∃ s', cRegister vals s r = some s' ∧ cRegDeliver vals s r = s') := by
+  unfold cRegDeliver
+  split
+  · exact Or.inl rfl
+  · rename_i hante
+    split
+    · exact Or.inl rfl
+    · rename_i s' hs'
+      exact Or.inr ⟨by simpa using hante, s', hs', rfl⟩
+
+theorem cRegDeliver_confirms (vals : List Addr) (s : CState) (r : CReg) :
+    (cRegDeliver vals s r).confirms = s.confirms ∧ (cRegDeliver vals s r).grants = s.grants := by
+  rcases cRegDeliver_cases vals s r with h | ⟨_, s', hs', hd⟩
+  · rw [h]; exact ⟨rfl, rfl⟩
+  · rw [hd, (cRegister_some hs').2.2]; exact ⟨rfl, rfl⟩
+
+theorem cRun_cons (vals : List Addr) (s : CState) (op : COp) (ops : List COp) :
+    cRun vals s (op :: ops) = cRun vals (cStep vals s op) ops := rfl
+
+/-- the confirmations filed under `B` -/
+def cView (s : CState) (B : Addr) : List CConfirm := s.confirms.filter (fun c => c.orch == B)
+
+/-- an attempt as a message of the generic model -/
+def cMsg (a : CAttempt) : Msg :=
+  { typ := "skyway.ConfirmBatch", signers := a.signers, creator := a.creator,
+    field := fun f => if f = "Orchestrator" then some a.orch else none,
+    sigKey := a.sigKey, sigItem := a.sigItem, item := a.batch }
+
+/-- registered address strings: only validators hold one, and no two validators hold the same -/
+def KeysInv (vals : List Addr) (s : CState) : Prop :=
+  (∀ v x, s.keys v = some x → v ∈ vals) ∧ (∀ v w x, s.keys v = some x → s.keys w = some x → v = w)
+
+theorem cStep_keysInv (vals : List Addr) (s : CState) (op : COp) (h : KeysInv vals s) :
+    KeysInv vals (cStep vals s op) := by
+  cases op with
+  | attempt a => simp only [cStep]; unfold KeysInv; rw [(cDeliver_keys s a).1]; exact h
+  | register r =>
+    simp only [cStep]
+    rcases cRegDeliver_cases vals s r with h0 | ⟨_, s', hs', hd⟩
+    · rw [h0]; exact h
+    · rw [hd]
+      obtain ⟨hmem, hcol, rfl⟩ := cRegister_some hs'
+      obtain ⟨h1, h2⟩ := h
+      refine ⟨?_, ?_⟩
+      · intro v x hv
+        simp only at hv
+        split at hv
+        · rename_i hc; rw [hc]; exact hmem
+        · exact h1 v x hv
+      · intro v w x hv hw
+        simp only at hv hw
+        split at hv
+        · rename_i hvc
+          split at hw
+          · rename_i hwc; rw [hvc, hwc]
+          · rename_i hwc
+            have hx : r.addr = x := Option.some.inj hv
+            exact absurd (by rw [hx]; exact hw) (hcol w (h1 w x hw) hwc)
+        · rename_i hvc
+          split at hw
+          · have hx : r.addr = x := Option.some.inj hw
+            exact absurd (by rw [hx]; exact hv) (hcol v (h1 v x hv) hvc)
+          · exact h2 v w x hv hw
+
+open Paloma.Gen.Auth in
+/-- governance-gated handlers: what their comparisons imply for `authorityOkOf` -/
+def govAgrees (h : Handler) : Bool :=
+  !isGov (genSem h) ||
+    (ruleOf (hname h) == some .authorityOnly
+     && ((genSem h).creatorIsAuthority || (genSem h).eqAuthority.any (fun f => (genSem h).eqCreator.contains f)
+          || authorityIgnoresCreator.contains (hname h))
+     && ((genSem h).eqAuthority.contains "Authority"
+          || ((genSem h).eqCreator.contains "Authority" && (genSem h).creatorIsAuthority)
+          || !(h.fields.map (·.1)).contains "Authority"))
+
+open Paloma.Gen.Auth in
+set_option maxRecDepth 100000 in
+theorem govAgrees_all : handlers.all govAgrees = true := by decide
+
+theorem legacy_rule_open :
+    ruleOf legacyType = some (.open_ "idempotent migration of feegranter grantees to client records; ignores the sender") := by
+  decide
+
+open Paloma.Gen.Auth in
+theorem genSigs_mem {h : Handler} {f : String} (hf : f ∈ genSigs h) :
+    f ∈ h.fields.map (·.1) ∧ roleOf (hname h) f = some .sigProven := by
+  simp only [genSigs, List.mem_filter, Bool.and_eq_true] at hf
+  exact ⟨hf.1, by simpa using hf.2.1⟩
+
+open Paloma.Gen.Auth in
+theorem genSem_sigFields_mem {h : Handler} {f : String} (hf : f ∈ (genSem h).sigFields) :
+    f ∈ h.fields.map (·.1) ∧ roleOf (hname h) f = some .sigProven := by
+  simp only [genSem] at hf
+  split at hf
+  · exact genSigs_mem hf
+  · simp at hf
+
+open Paloma.Gen.Auth in
+theorem genSem_targets_mem {h : Handler} {f : String} (hf : f ∈ (genSem h).targets) :
+    f ∈ h.fields.map (·.1) ∧ roleOf (hname h) f = some .target := by
+  simp only [genSem, List.mem_filter] at hf
+  exact ⟨hf.1, by simpa using hf.2⟩
 
 end Lemmas
 
 /- ## Property theorems -/
 
+/-! ### One transaction, every handler of the chain
+
+`env.semOf = semOfGen`: the delivery functions interpret, for EVERY message type the chain accepts
+(`table_covers`: generated handlers = registered RPCs), the semantics computed from the Go source.
+Signers, claimed creators and the principal every identity-bearing field denotes (`Msg.field`) are
+arbitrary. -/
+
 /-- Clause "changes only through a transaction signed by that principal or by an address holding a
-fee grant from it", for every handler that writes in the creator's name: if delivering `m`
-changes the slot of `B` then `B` is the creator AND `B` signed or granted an allowance to a
-signer.  This is exactly what `VerifyAuthorisedSignatureDecorator` implies — no more (any fee
-grant, of any size or message filter, delegates everything). -/
-theorem write_authorised (cfg : Cfg) (s : State) (m : Msg) (B : Addr)
-    (hr : cfg.ruleOf m.typ = some .actsFor)
-    (h : (deliver cfg s m).slots B ≠ s.slots B) :
-    B = m.creator ∧ (B ∈ m.signers ∨ ∃ a ∈ m.signers, s.grants B a = true) := by
-  have := deliver_changed cfg s m B h
-  simpa [Authorises, hr] using this
+fee grant from it (or … carrying the validator's own external-chain signature over the exact item),
+or by the governance authority", for all 41 handlers at once: if delivering `tx` changes ANYTHING
+kept for `B` (adds, alters, removes: `slots B` is a list of records, handlers apply arbitrary
+functions to it) then `tx` was accepted and
+* one of its messages is `Justified` for `B` — `B` is its creator and signed / granted a fee
+  allowance to a signer; or an identity field names `B` and the message carries a signature made by
+  the key `B` registered over exactly the item; or it is sent in the governance authority's name
+  and the authority signed —, or
+* records were only ADDED for `B` (its existing records are a prefix of the new ones), by a
+  message that NAMES `B`: through a field of role `target`, or as a grantee of the light-node
+  feegranter in the light-node migration (`Named`; the two exceptions are reachable, see
+  `adds_clause_fails_for_*` below). -/
+theorem change_needs_authorisation (env : Env) (hsem : env.semOf = semOfGen) (s : State) (tx : Tx) (B : Addr)
+    (h : (deliverTx env s tx).slots B ≠ s.slots B) :
+    txAccepted env s tx = true ∧
+    ((∃ m ∈ tx.msgs, Justified env.authority env.regKey s.grants tx.signers B m)
+     ∨ ((∃ l, l ≠ [] ∧ (deliverTx env s tx).slots B = s.slots B ++ l)
+        ∧ ∃ m ∈ tx.msgs, Named env.lightFeegranter s.grants B m)) := by
+  obtain ⟨hacc, hcase⟩ := deliverTx_account (safeEnv_gen hsem) s tx B h
+  refine ⟨hacc, ?_⟩
+  rcases hcase with hj | ⟨hl, m, hm, hn⟩
+  · exact Or.inl hj
+  · exact Or.inr ⟨hl, m, hm, named_of_namedBy hsem hn⟩
 
-/-- Clause "A transaction authorised by account A never adds, alters or removes anything
-attributed to a different principal B": a transaction whose signers do not include `B` and hold no
-grant from `B` leaves `B`'s slot alone, whatever creator and identity fields it claims. -/
-theorem no_cross_principal_write (cfg : Cfg) (s : State) (m : Msg) (B : Addr)
-    (hr : cfg.ruleOf m.typ = some .actsFor)
-    (hB : B ∉ m.signers) (hg : ∀ a ∈ m.signers, s.grants B a = false) :
-    (deliver cfg s m).slots B = s.slots B := by
+/-- Clause "A transaction authorised by account A never … alters or removes anything attributed to
+a different principal B", full strength: a transaction none of whose messages is `Justified` for
+`B` leaves every record kept for `B` in place (the old records are a prefix of the new ones) —
+whatever creators it claims, whatever its identity fields name, whatever grants its signers hold
+from OTHER principals. -/
+theorem no_cross_principal_alteration (env : Env) (hsem : env.semOf = semOfGen) (s : State) (tx : Tx) (B : Addr)
+    (hno : ∀ m ∈ tx.msgs, ¬ Justified env.authority env.regKey s.grants tx.signers B m) :
+    ∃ l, (deliverTx env s tx).slots B = s.slots B ++ l := by
+  by_cases h : (deliverTx env s tx).slots B = s.slots B
+  · exact ⟨[], by rw [h]; simp⟩
+  · rcases (change_needs_authorisation env hsem s tx B h).2 with ⟨m, hm, hj⟩ | ⟨⟨l, _, hl⟩, _⟩
+    · exact absurd hj (hno m hm)
+    · exact ⟨l, hl⟩
+
+/- Clause "… never ADDS … anything attributed to a different principal B", full strength:
+
+     (∀ m ∈ tx.msgs, ¬ Justified env.authority env.regKey s.grants tx.signers B m) →
+       (deliverTx env s tx).slots B = s.slots B
+
+   is FALSE, in the model and in the implementation (`adds_clause_fails_for_target`,
+   `adds_clause_fails_for_light_node_migration` below): a message may name `B` as beneficiary
+   (licence bought for `B`, denom handed to `B`, deposit / sale attested for `B`, `B` put on a job's
+   runner list, on the gas-exempt list), and anybody may trigger the migration that registers the
+   pending grantees of the light-node feegranter.  The best true statement: -/
+
+/-- Clause "never adds", with the two exceptions excluded by hypothesis: a transaction none of whose
+messages is `Justified` for `B` or names `B` changes nothing kept for `B`. -/
+theorem no_cross_principal_write_partial (env : Env) (hsem : env.semOf = semOfGen) (s : State) (tx : Tx) (B : Addr)
+    (hno : ∀ m ∈ tx.msgs, ¬ Justified env.authority env.regKey s.grants tx.signers B m)
+    (hnamed : ∀ m ∈ tx.msgs, ¬ Named env.lightFeegranter s.grants B m) :
+    (deliverTx env s tx).slots B = s.slots B := by
   apply Classical.byContradiction
-  intro hne
-  obtain ⟨_, h2⟩ := write_authorised cfg s m B hr hne
-  cases h2 with
-  | inl h => exact hB h
-  | inr h => obtain ⟨a, ha, hga⟩ := h; simp [hg a ha] at hga
+  intro h
+  rcases (change_needs_authorisation env hsem s tx B h).2 with ⟨m, hm, hj⟩ | ⟨_, m, hm, hn⟩
+  · exact hno m hm hj
+  · exact hnamed m hm hn
 
-/-- Clause "or by the governance authority": an authority-only handler changes state only when
-the creator is the governance authority (and then only the authority's own slot: the settings). -/
-theorem authority_only (cfg : Cfg) (s : State) (m : Msg) (X : Addr)
-    (hr : cfg.ruleOf m.typ = some .authorityOnly)
-    (h : (deliver cfg s m).slots X ≠ s.slots X) :
-    X = cfg.authority ∧ m.creator = cfg.authority ∧ anteOk m s.grants = true := by
-  have := deliver_changed cfg s m X h
-  simpa [Authorises, hr] using this
+/-- The same in the words of the quantifier "every choice of signer, claimed creator and named
+principal": `B` did not sign and granted nothing to a signer; no message carries a signature by
+`B`'s registered key over its item while naming `B`; the governance authority did not sign (nor a
+grantee of it); no `target` field names `B` and `B` holds no grant from the light-node feegranter.
+Then nothing kept for `B` changes — whoever the messages claim as creator. -/
+theorem stranger_changes_nothing (env : Env) (hsem : env.semOf = semOfGen) (s : State) (tx : Tx) (B : Addr)
+    (hB : B ∉ tx.signers) (hg : ∀ a ∈ tx.signers, s.grants B a = false)
+    (hsig : ∀ m ∈ tx.msgs, ∀ f, m.field f = some B → env.regKey B ≠ some m.sigKey ∨ m.sigItem ≠ m.item)
+    (hgov : env.authority ∉ tx.signers) (hgovg : ∀ a ∈ tx.signers, s.grants env.authority a = false)
+    (htarget : ∀ m ∈ tx.msgs, ∀ f, roleOf m.typ f = some .target → m.field f ≠ some B)
+    (hlegacy : s.grants env.lightFeegranter B = false) :
+    (deliverTx env s tx).slots B = s.slots B := by
+  apply no_cross_principal_write_partial env hsem s tx B
+  · intro m hm
+    apply not_justified_of
+    · rintro (h | ⟨a, ha, hga⟩)
+      · exact hB h
+      · rw [hg a ha] at hga; exact Bool.false_ne_true hga
+    · exact hsig m hm
+    · rintro (h | ⟨a, ha, hga⟩)
+      · exact hgov h
+      · rw [hgovg a ha] at hga; exact Bool.false_ne_true hga
+  · intro m hm hn
+    rcases hn with ⟨f, hf, hfB⟩ | ⟨_, hgr⟩
+    · exact htarget m hm f hf hfB
+    · rw [hlegacy] at hgr; exact Bool.false_ne_true hgr
 
-/-- Clause "(or, for batch confirmations, carrying the validator's own external-chain signature
-over the exact item)": a signature-proven handler changes only the slot of the principal named
-by the proven field, and only when that signature verifies. -/
-theorem sig_proven_only (cfg : Cfg) (s : State) (m : Msg) (X : Addr) (f : Nat)
-    (hr : cfg.ruleOf m.typ = some (.sigProven f))
-    (h : (deliver cfg s m).slots X ≠ s.slots X) :
-    X = m.idField f ∧ cfg.sigOk m f = true := by
-  have := deliver_changed cfg s m X h
-  simpa [Authorises, hr] using this
+/-- Error branches: a transaction that is not accepted — no message, a signature missing, a
+message the decorator refuses, a handler error (including a failed comparison with the creator /
+the authority / the registered key), an unknown message type — changes nothing at all, also not
+through the messages that ran before the failing one. -/
+theorem rejected_tx_changes_nothing (env : Env) (s : State) (tx : Tx) (h : txAccepted env s tx = false) :
+    deliverTx env s tx = s := by
+  rcases deliverTx_cases env s tx with ⟨_, h0⟩ | ⟨hacc, _⟩
+  · exact h0
+  · rw [h] at hacc; exact absurd hacc (by simp)
 
-/-- The whole property over ALL histories of grants, revocations, single- and MULTI-message
-transactions (`Op.mtx`: the history version of `multi_msg_each_checked`): a principal
-that starts without outstanding fee grants and is not involved in any operation (never signs,
-never grants, is never named by a verifying signature-proven field, is not the authority of an
-authority-only message) keeps its slot — unless an `open_` message type occurs, about which
-nothing is claimed. -/
-theorem history_no_cross_principal_write (cfg : Cfg) (B : Addr) (ops : List Op) :
-    ∀ s : State, (∀ e, s.grants B e = false) → (∀ op ∈ ops, ¬ Involves cfg B op) →
-      (run cfg s ops).slots B = s.slots B := by
+open Paloma.Gen.Auth in
+/-- "for every message type the chain accepts": an accepted transaction consists of messages of
+the generated handler table only (= the registered RPCs, `table_covers`); a message of any other
+type makes the whole transaction fail — no theorem above holds vacuously for unknown types. -/
+theorem accepted_types_are_handlers (env : Env) (hsem : env.semOf = semOfGen) (s : State) (tx : Tx)
+    (h : txAccepted env s tx = true) : ∀ m ∈ tx.msgs, ∃ hd ∈ handlers, hname hd = m.typ := by
+  have hall : ∀ (ms : List Msg) (s s' : State), handleAll env s ms = some s' →
+      ∀ m ∈ ms, ∃ hd ∈ handlers, hname hd = m.typ := by
+    intro ms
+    induction ms with
+    | nil => intro _ _ _ m hm; simp at hm
+    | cons m0 rest ih =>
+      intro s s' h m hm
+      simp only [handleAll] at h
+      split at h
+      · simp at h
+      · rename_i s1 h1
+        rcases List.mem_cons.1 hm with rfl | hm
+        · obtain ⟨sem, hs, _⟩ := handle_some h1
+          rw [hsem] at hs
+          obtain ⟨hd, hmem, hn, _⟩ := semOfGen_some hs
+          exact ⟨hd, hmem, hn⟩
+        · exact ih s1 s' h m hm
+  rcases deliverTx_cases env s tx with ⟨h0, _⟩ | ⟨_, _, _, _, hh⟩
+  · rw [h] at h0; exact absurd h0 (by simp)
+  · exact hall tx.msgs s _ hh
+
+/-- Multi-message transactions: an accepted transaction has passed the decorator's check for EVERY
+one of its messages individually — each creator is among that message's `metadata.signers`, or
+granted an allowance to one of them, itself — and everybody a message declares as signer signed the
+transaction.  A grant held from the creator of one message does not carry over to another. -/
+theorem multi_msg_each_checked (env : Env) (s : State) (tx : Tx) (h : txAccepted env s tx = true) :
+    ∀ m ∈ tx.msgs, SignedOrGranted s.grants m.signers m.creator ∧ ∀ a ∈ declared m, a ∈ tx.signers := by
+  rcases deliverTx_cases env s tx with ⟨h0, _⟩ | ⟨_, _, hsig, hante, _⟩
+  · rw [h] at h0; exact absurd h0 (by simp)
+  · intro m hm
+    exact ⟨(anteOk_iff m s.grants).1 ((List.all_eq_true.1 hante) m hm),
+      sigCheckTx_mem hsig (declared m) (List.mem_map.2 ⟨m, hm, rfl⟩)⟩
+
+/-- the single-message signature check of the driver (`sigCheck`) is the transaction-level one: it
+    implies that every declared signer signed -/
+theorem sigCheck_sound (typ : String) (S metaSigners : List Addr) (authf : Option Addr)
+    (h : sigCheck typ S metaSigners authf = true) : ∀ a ∈ declaredSigners typ metaSigners authf, a ∈ S := by
+  intro a ha
+  unfold sigCheck at h
+  unfold declaredSigners at ha
+  split at h
+  · rename_i hc
+    rw [if_pos hc] at ha
+    cases authf with
+    | none => simp at h
+    | some x =>
+      have hS : S = [x] := by simpa using h
+      rw [hS]; simpa using ha
+  · rename_i hc
+    rw [if_neg hc] at ha
+    have hS : S = metaSigners := by simpa using h
+    rw [hS]; exact ha
+
+/-! ### Histories -/
+
+/-- how a single operation of a history accounts for a change of `B`'s records, in the state `si`
+it is applied to: a transaction as in `change_needs_authorisation`; an executed governance
+proposal by being one ("or by the governance authority"); grants and revocations never -/
+def Accounted (env : Env) (si : State) (B : Addr) : Op → Prop
+  | .tx t => txAccepted env si t = true ∧
+      ((∃ m ∈ t.msgs, Justified env.authority env.regKey si.grants t.signers B m)
+       ∨ ((∃ l, l ≠ [] ∧ (deliverTx env si t).slots B = si.slots B ++ l)
+          ∧ ∃ m ∈ t.msgs, Named env.lightFeegranter si.grants B m))
+  | .gov _ => True
+  | _ => False
+
+/-- Over ALL histories of grants, revocations, (multi-message) transactions and executed governance
+proposals, without any restriction on what `B` does: whenever what is kept for `B` differs between
+the start and the end, the history contains an operation that changed it, and THAT operation, in
+the state it was applied to, is an accepted transaction justified for `B` (or one that only added
+records naming `B`), or an executed governance proposal. -/
+theorem history_change_attributed (env : Env) (hsem : env.semOf = semOfGen) (B : Addr) (ops : List Op) (s : State)
+    (h : (run env s ops).slots B ≠ s.slots B) :
+    ∃ pre op post, ops = pre ++ op :: post ∧
+      (step env (run env s pre) op).slots B ≠ (run env s pre).slots B ∧ Accounted env (run env s pre) B op := by
+  obtain ⟨pre, op, post, hops, hch⟩ := run_changed_split env B ops s h
+  refine ⟨pre, op, post, hops, hch, ?_⟩
+  rcases step_slots_of_not_tx hch with ⟨t, rfl⟩ | ⟨m, rfl⟩
+  · exact change_needs_authorisation env hsem (run env s pre) t B hch
+  · exact trivial
+
+/-- The fee grant a justification rests on was really given: a grant `P → a` in force after a
+history was in force at its start and never revoked, or the history contains a `grant P a`
+operation (ASSUMPTION: signed by `P`, see `Op`) not followed by its revocation.  Transactions never
+create grants. -/
+theorem grant_provenance (env : Env) (P a : Addr) (ops : List Op) (s : State)
+    (h : (run env s ops).grants P a = true) :
+    (s.grants P a = true ∧ ∀ o ∈ ops, ¬ isRevokeOf P a o)
+    ∨ ∃ pre post, ops = pre ++ Op.grant P a :: post ∧ ∀ o ∈ post, ¬ isRevokeOf P a o :=
+  run_grants_provenance env P a ops s h
+
+/-- "never alters or removes", over histories, `B` free to act in any other way: while governance
+passes no proposal and no transaction of the history is `Justified` for `B` in the state it is
+delivered in, every record kept for `B` at the start is still there at the end, in place. -/
+theorem history_never_altered (env : Env) (hsem : env.semOf = semOfGen) (B : Addr) (ops : List Op) (s : State)
+    (hnogov : ∀ m, Op.gov m ∉ ops)
+    (hno : ∀ pre t post, ops = pre ++ Op.tx t :: post →
+      ∀ m ∈ t.msgs, ¬ Justified env.authority env.regKey (run env s pre).grants t.signers B m) :
+    ∃ l, (run env s ops).slots B = s.slots B ++ l :=
+  run_prefix (safeEnv_gen hsem) B ops s hnogov hno
+
+/-- … and if moreover no transaction names `B`, nothing kept for `B` changes. -/
+theorem history_untouched_partial (env : Env) (hsem : env.semOf = semOfGen) (B : Addr) (ops : List Op) (s : State)
+    (hnogov : ∀ m, Op.gov m ∉ ops)
+    (hno : ∀ pre t post, ops = pre ++ Op.tx t :: post →
+      ∀ m ∈ t.msgs, ¬ Justified env.authority env.regKey (run env s pre).grants t.signers B m
+        ∧ ¬ Named env.lightFeegranter (run env s pre).grants B m) :
+    (run env s ops).slots B = s.slots B := by
+  apply run_unchanged (safeEnv_gen hsem) B ops s hnogov
+  intro pre t post hops m hm
+  exact ⟨(hno pre t post hops m hm).1, fun hn => (hno pre t post hops m hm).2 (named_of_namedBy hsem hn)⟩
+
+/-- `B` is not involved in `op`: it does not sign, nothing names it, it grants nothing and is not
+    granted anything by the light-node feegranter; the governance authority does not act either -/
+def Uninvolved (env : Env) (B : Addr) : Op → Prop
+  | .grant g e => g ≠ B ∧ g ≠ env.authority ∧ ¬ (g = env.lightFeegranter ∧ e = B)
+  | .revoke _ _ => True
+  | .tx t => B ∉ t.signers ∧ env.authority ∉ t.signers ∧ ∀ m ∈ t.msgs, ∀ f, m.field f ≠ some B
+  | .gov _ => False
+
+/-- The passive special case (the former `history_no_cross_principal_write`, now for the real
+handler table and including the `open` types): a principal without outstanding grants that is not
+involved in any operation keeps everything — while the governance authority, too, stays out. -/
+theorem history_passive_unchanged (env : Env) (hsem : env.semOf = semOfGen) (B : Addr) (ops : List Op) :
+    ∀ s : State, (∀ e, s.grants B e = false) → (∀ e, s.grants env.authority e = false) →
+      s.grants env.lightFeegranter B = false → (∀ op ∈ ops, Uninvolved env B op) →
+      (run env s ops).slots B = s.slots B := by
   induction ops with
-  | nil => intro s _ _; rfl
+  | nil => intro s _ _ _ _; rfl
   | cons op rest ih =>
-    intro s hg hops
-    have h1 := step_keeps cfg s op B hg (hops op (by simp))
-    have h2 := ih (step cfg s op) h1.2 (fun o ho => hops o (by simp [ho]))
-    simp only [run, List.foldl_cons] at h2 ⊢
-    rw [h2, h1.1]
+    intro s hB hA hF hops
+    have hop := hops op (by simp)
+    have hstep : (step env s op).slots B = s.slots B
+        ∧ (∀ e, (step env s op).grants B e = false) ∧ (∀ e, (step env s op).grants env.authority e = false)
+        ∧ (step env s op).grants env.lightFeegranter B = false := by
+      cases op with
+      | grant g e =>
+        obtain ⟨h1, h2, h3⟩ := hop
+        refine ⟨rfl, fun e' => ?_, fun e' => ?_, ?_⟩
+        · simp only [step, setGrant]
+          split
+          · rename_i hc; exact absurd hc.1.symm h1
+          · exact hB e'
+        · simp only [step, setGrant]
+          split
+          · rename_i hc; exact absurd hc.1.symm h2
+          · exact hA e'
+        · simp only [step, setGrant]
+          split
+          · rename_i hc; exact absurd ⟨hc.1.symm, hc.2.symm⟩ h3
+          · exact hF
+      | revoke g e =>
+        refine ⟨rfl, fun e' => ?_, fun e' => ?_, ?_⟩
+        · simp only [step, setGrant]
+          split
+          · rfl
+          · exact hB e'
+        · simp only [step, setGrant]
+          split
+          · rfl
+          · exact hA e'
+        · simp only [step, setGrant]
+          split
+          · rfl
+          · exact hF
+      | tx t =>
+        obtain ⟨h1, h2, h3⟩ := hop
+        refine ⟨?_, fun e' => by rw [step_grants_tx]; exact hB e', fun e' => by rw [step_grants_tx]; exact hA e',
+          by rw [step_grants_tx]; exact hF⟩
+        exact stranger_changes_nothing env hsem s t B h1 (fun a _ => hB a)
+          (fun m hm f hf => absurd hf (h3 m hm f)) h2 (fun a _ => hA a)
+          (fun m hm f _ => h3 m hm f) hF
+      | gov m => exact absurd hop id
+    rw [run_cons, ih (step env s op) hstep.2.1 hstep.2.2.1 hstep.2.2.2 (fun o ho => hops o (by simp [ho])), hstep.1]
 
-/-- Multi-message transactions, clause "signed by that principal or by an address holding a fee
-grant FROM IT": an accepted transaction has passed the decorator's check for EVERY one of its
-messages individually — each creator signed, or granted an allowance to a signer, itself.  A
-grant held from the creator of one message does not carry over to another message. -/
-theorem multi_msg_each_checked (cfg : Cfg) (s : State) (msgs : List Msg)
-    (h : txAccepted cfg s msgs = true) : ∀ m ∈ msgs, anteOk m s.grants = true := by
-  unfold txAccepted anteOkTx at h
-  have h1 : (msgs.all fun m => anteOk m s.grants) = true := by
-    cases hh : (msgs.all fun m => anteOk m s.grants) <;> simp [hh] at h ⊢
-  exact fun m hm => (List.all_eq_true.1 h1) m hm
+/-! ### The verdict function of the driver against the delivery model -/
 
-/-- …and a transaction that is not accepted changes nothing at all (atomicity), while an accepted
-one changes `B`'s slot only through a message that writes for `B` and was itself let through. -/
-theorem multi_msg_changed (cfg : Cfg) (s : State) (msgs : List Msg) (B : Addr)
-    (hne : (deliverTx cfg s msgs).slots B ≠ s.slots B) :
-    txAccepted cfg s msgs = true ∧ ∃ m ∈ msgs, Writes cfg B m ∧ anteOk m s.grants = true := by
-  unfold deliverTx at hne
-  split at hne
-  · exact absurd rfl hne
-  · rename_i hante
-    have hall : anteOkTx msgs s.grants = true := by simpa using hante
-    split at hne
-    · exact absurd rfl hne
-    · rename_i s' hs'
-      obtain ⟨m, hm, hw⟩ := handleAll_changed cfg B msgs s s' hs' hne
-      refine ⟨by simp [txAccepted, hall, hs'], m, hm, hw, ?_⟩
-      unfold anteOkTx at hall
-      exact (List.all_eq_true.1 hall) m hm
-
-/-- The attack the per-message check rules out: in a transaction signed by signers none of which
-is `B` or holds a grant from `B`, no message in `B`'s name (nor any other `actsFor` message) can
-change `B`'s slot — whatever grants the signers hold from the creators of the OTHER messages. -/
-theorem multi_msg_no_cross_principal_write (cfg : Cfg) (s : State) (msgs : List Msg) (B : Addr)
-    (hr : ∀ m ∈ msgs, cfg.ruleOf m.typ = some .actsFor)
-    (hB : ∀ m ∈ msgs, B ∉ m.signers) (hg : ∀ m ∈ msgs, ∀ a ∈ m.signers, s.grants B a = false) :
-    (deliverTx cfg s msgs).slots B = s.slots B := by
-  apply Classical.byContradiction
-  intro hne
-  obtain ⟨_, m, hm, hw, hante⟩ := multi_msg_changed cfg s msgs B hne
-  simp only [Writes, hr m hm] at hw
-  subst hw
-  cases (anteOk_iff m s.grants).1 hante with
-  | inl h => exact hB m hm h
-  | inr h => obtain ⟨a, ha, hga⟩ := h; simp [hg m hm a ha] at hga
-
+open Paloma.Gen.Auth in
+/-- `mayTouch` (with `roles`, `rules`, `authorityOkOf` — what the driver evaluates on every recorded
+transaction of the harness) is SOUND for the delivery model: whenever a single-message transaction
+of a handler `hd` of the generated table changes what is kept for `B`, the verdict function allows
+it, given the list of the request's identity fields that denote `B` — for either value of the
+`alteration` flag.  (`hwf`: the message has no fields its type does not have.) -/
+theorem mayTouch_sound (env : Env) (hsem : env.semOf = semOfGen) (s : State) (signers : List Addr) (m : Msg)
+    (B : Addr) (hd : Handler) (hmem : hd ∈ handlers) (htyp : m.typ = hname hd)
+    (hwf : ∀ f, f ∉ hd.fields.map (·.1) → m.field f = none)
+    (redirected : List String) (hred : ∀ f ∈ hd.fields.map (·.1), m.field f = some B → f ∈ redirected)
+    (alteration : Bool)
+    (h : (deliver env s signers m).slots B ≠ s.slots B) :
+    mayTouch env.authority m.typ m.signers m.creator s.grants B redirected alteration = true
+    ∨ (ruleOf m.typ = some .authorityOnly
+        ∧ authorityOkOf env.authority m.typ m.creator (m.field "Authority") = true) := by
+  have hsafe := safeEnv_gen hsem
+  unfold deliver at h
+  rcases deliverTx_cases env s ⟨signers, [m]⟩ with ⟨_, h0⟩ | ⟨_, _, _, hante, hall⟩
+  · rw [h0] at h; exact absurd rfl h
+  · have hante' : anteOk m s.grants = true := by simpa [anteOkTx] using hante
+    simp only [handleAll] at hall
+    split at hall
+    · simp at hall
+    · rename_i s1 h1
+      simp only [Option.some.injEq] at hall
+      rw [← hall] at h
+      -- the semantics `handle` used is that of `hd`
+      have hsemhd : ∀ sem, env.semOf m.typ = some sem → sem = genSem hd := by
+        intro sem hs
+        rw [hsem] at hs
+        obtain ⟨hd', hmem', hn', hg'⟩ := semOfGen_some hs
+        -- names are unique in the table
+        have huniq : ∀ a ∈ handlers, ∀ b ∈ handlers, hname a = hname b → a = b := by decide
+        rw [huniq hd hmem hd' hmem' (by rw [hn', htyp]), hg']
+      rcases handle_account hsafe B h1 with ⟨sem, hs, hg, hcase⟩ | ⟨l, hl, hn⟩
+      · have hsg := hsemhd sem hs
+        subst hsg
+        rcases hcase with hgov | ⟨_, hB⟩ | ⟨_, f, hf, hfB, _⟩
+        · -- governance gated
+          right
+          have hga := (List.all_eq_true.1 govAgrees_all) hd hmem
+          simp only [govAgrees, hgov, Bool.not_true, Bool.false_or, Bool.and_eq_true, Bool.or_eq_true] at hga
+          obtain ⟨⟨hrule, hcr⟩, hau⟩ := hga
+          refine ⟨by rw [htyp]; simpa using hrule, ?_⟩
+          have hcreator : m.typ ∈ authorityIgnoresCreator ∨ m.creator = env.authority := by
+            rcases hcr with (hc | hc) | hc
+            · exact Or.inr (guardsOk_creatorIsAuthority hg hc)
+            · obtain ⟨f, hf, hfc⟩ := List.any_eq_true.1 hc
+              have e1 := guardsOk_eqAuthority hg f hf
+              have e2 := guardsOk_eqCreator hg f (by simpa using hfc)
+              rw [e1] at e2
+              exact Or.inr (Option.some.inj e2).symm
+            · exact Or.inl (by rw [htyp]; simpa using hc)
+          have hauth : m.field "Authority" = none ∨ m.field "Authority" = some env.authority := by
+            rcases hau with (ha | ha) | ha
+            · exact Or.inr (guardsOk_eqAuthority hg "Authority" (by simpa using ha))
+            · have e1 := guardsOk_eqCreator hg "Authority" (by simpa using ha.1)
+              rw [guardsOk_creatorIsAuthority hg ha.2] at e1
+              exact Or.inr e1
+            · exact Or.inl (hwf "Authority" (by simpa using ha))
+          unfold authorityOkOf
+          rcases hauth with ha | ha <;> rcases hcreator with hc | hc <;> simp [ha, hc]
+        · left
+          subst hB
+          have := (anteOk_iff m s.grants).1 hante'
+          unfold mayTouch
+          rcases this with hs1 | ⟨a, ha, hga⟩
+          · simp [hs1]
+          · have : m.signers.any (fun s_1 => s.grants m.creator s_1) = true := List.any_eq_true.2 ⟨a, ha, hga⟩
+            simp [this]
+        · left
+          obtain ⟨hfm, hrole⟩ := genSem_sigFields_mem hf
+          have hfr := hred f hfm hfB
+          unfold mayTouch
+          have : redirected.any (fun f => roleOf m.typ f == some Role.target || roleOf m.typ f == some Role.sigProven
+              || (!alteration && roleOf m.typ f == some Role.freeText)) = true :=
+            List.any_eq_true.2 ⟨f, hfr, by rw [htyp, hrole]; simp⟩
+          simp [this]
+      · left
+        have hne : l ≠ [] := by
+          intro hnil; apply h; rw [hl, hnil]; simp
+        obtain ⟨sem, hs, hcase⟩ := hn hne
+        have hsg := hsemhd sem hs
+        subst hsg
+        unfold mayTouch
+        rcases hcase with ⟨f, hf, hfB⟩ | ⟨hst, _⟩
+        · obtain ⟨hfm, hrole⟩ := genSem_targets_mem hf
+          have hfr := hred f hfm hfB
+          have : redirected.any (fun f => roleOf m.typ f == some Role.target || roleOf m.typ f == some Role.sigProven
+              || (!alteration && roleOf m.typ f == some Role.freeText)) = true :=
+            List.any_eq_true.2 ⟨f, hfr, by rw [htyp, hrole]; simp⟩
+          simp [this]
+        · have hty : m.typ = legacyType := by
+            simp only [genSem] at hst
+            rw [htyp]; simpa using hst
+          rw [hty, legacy_rule_open]
+          simp
 
 /-! ### Ownership that can be handed over (token-factory denoms) -/
 
@@ -638,6 +1448,35 @@ theorem former_admin_locked_out (namer : Nat → Addr) (s : DState) (m : DMsg) (
   exact denom_history_owner_only namer m.denom b ops _ h
     (fun e => by rw [dDeliver_grants]; exact hg e) hops
 
+/-- a denom message as a message of the generic model -/
+def dMsg (m : DMsg) : Msg :=
+  { typ := match m.act with
+      | .create => "tokenfactory.CreateDenom"
+      | .changeAdmin _ => "tokenfactory.ChangeAdmin"
+      | .write => "tokenfactory.Mint",
+    signers := m.signers, creator := m.creator,
+    field := fun f => match m.act with
+      | .changeAdmin (some n) => if f = "NewAdmin" then some n else none
+      | _ => none }
+
+/-- The denom model against the generic one: whenever anything kept for a denom changes, the
+principal it is attributed to (`dOwner`: the current admin) is `Justified` — by the SAME predicate
+as in `change_needs_authorisation`, first disjunct — for the message seen as a generic message. -/
+theorem denom_change_justified (authority : Addr) (regKey : Addr → Option Nat) (namer : Nat → Addr)
+    (s : DState) (m : DMsg) (d : Nat) (h : dView (dDeliver namer s m) d ≠ dView s d) :
+    ∃ P, dOwner namer s d = some P ∧ Justified authority regKey s.grants m.signers P (dMsg m) := by
+  obtain ⟨_, h2, h3⟩ := dDeliver_changed namer s m d h
+  exact ⟨m.creator, h2, Or.inl ⟨rfl, h3⟩⟩
+
+/-- … and a hand-over is, for the receiver, exactly the `target` exception of the generic theorem:
+`NewAdmin` names it. -/
+theorem handover_names_receiver (F : Addr) (g : Addr → Addr → Bool) (m : DMsg) (b : Addr)
+    (hact : m.act = .changeAdmin (some b)) : Named F g b (dMsg m) := by
+  left
+  refine ⟨"NewAdmin", ?_, ?_⟩
+  · simp only [dMsg, hact]; decide
+  · simp [dMsg, hact]
+
 /-! ### Batch confirmations: filed under the validator whose key signed -/
 
 /-- Clause "(or, for batch confirmations, carrying the validator's own external-chain signature
@@ -645,94 +1484,248 @@ over the exact item)", concretely: a confirmation that appears through an attemp
 under `a`'s ORCHESTRATOR, for `a`'s batch, and `a` carries a signature made by the key that
 orchestrator registered, over exactly that batch (and passed the decorator).  Who sent it does not
 matter — and cannot help. -/
-theorem confirm_appears_only_backed (regKey : Addr → Option Nat) (s : CState) (a : CAttempt) (c : CConfirm)
-    (hin : c ∈ (cDeliver regKey s a).confirms) (hnew : c ∉ s.confirms) :
-    c.orch = a.orch ∧ c.batch = a.batch ∧ regKey a.orch = some a.sigKey ∧ a.sigItem = a.batch
-      ∧ (a.creator ∈ a.signers ∨ ∃ x ∈ a.signers, s.grants a.creator x = true) := by
-  cases cDeliver_cases regKey s a with
-  | inl h => rw [h] at hin; exact absurd hin hnew
-  | inr h =>
-    obtain ⟨hante, s', hs', hd⟩ := h
-    obtain ⟨c', hc', _, ho, hb, hsk, hsi, hbk⟩ := cHandle_some regKey s s' a hs'
-    rw [hd, hc'] at hin
-    have : c = c' := by
-      cases List.mem_append.1 hin with
-      | inl h => exact absurd h hnew
-      | inr h => simpa using h
+theorem confirm_appears_only_backed (s : CState) (a : CAttempt) (c : CConfirm)
+    (hin : c ∈ (cDeliver s a).confirms) (hnew : c ∉ s.confirms) :
+    c.orch = a.orch ∧ c.batch = a.batch ∧ regAcct s a.orch = some a.sigKey ∧ a.sigItem = a.batch
+      ∧ SignedOrGranted s.grants a.signers a.creator := by
+  rcases cDeliver_cases s a with h | ⟨hante, s', hs', hd⟩
+  · rw [h] at hin; exact absurd hin hnew
+  · obtain ⟨rfl, _, hreg, _, hi, _, _⟩ := cHandle_some hs'
+    rw [hd] at hin
+    have : c = ⟨a.batch, a.orch, a.ethSigner, a.sigKey, a.sigItem⟩ := by
+      rcases List.mem_append.1 hin with h | h
+      · exact absurd h hnew
+      · simpa using h
     subst this
-    obtain ⟨h1, h2, h3⟩ := hbk
-    refine ⟨ho, hb, ?_, ?_, ?_⟩
-    · rw [← ho, h1, ← hsk, h2]
-    · rw [← hsi, h3, hb]
-    · simpa [cAnteOk, List.any_eq_true] using hante
+    exact ⟨rfl, rfl, hreg, hi, (cAnteOk_iff a s.grants).1 hante⟩
 
 /-- "A transaction authorised by account A never adds … anything attributed to a different
 principal B", for confirmations: an attempt whose signature was not made by the key registered by
 the validator it names as orchestrator (e.g. A's own key and genuine signature, orchestrator B), or
 not over exactly the batch, stores nothing — whoever signs the transaction, whatever `eth_signer`
 says. -/
-theorem no_confirm_in_anothers_name (regKey : Addr → Option Nat) (s : CState) (a : CAttempt)
-    (h : regKey a.orch ≠ some a.sigKey ∨ a.sigItem ≠ a.batch) :
-    (cDeliver regKey s a).confirms = s.confirms := by
-  cases cDeliver_cases regKey s a with
-  | inl h' => rw [h']
-  | inr h' =>
-    obtain ⟨_, s', hs', _⟩ := h'
-    exfalso
-    unfold cHandle at hs'
-    split at hs'
-    · simp at hs'
-    · split at hs'
-      · simp at hs'
-      · rename_i hreg
-        split at hs'
-        · simp at hs'
-        · rename_i hk
-          split at hs'
-          · simp at hs'
-          · rename_i hi
-            have hreg' : regKey a.orch = some a.ethSigner := by simpa using hreg
-            have hk' : a.sigKey = a.ethSigner := by simpa using hk
-            have hi' : a.sigItem = a.batch := by simpa using hi
-            cases h with
-            | inl h => exact h (by rw [hreg', hk'])
-            | inr h => exact h hi'
+theorem no_confirm_in_anothers_name (s : CState) (a : CAttempt)
+    (h : regAcct s a.orch ≠ some a.sigKey ∨ a.sigItem ≠ a.batch) :
+    (cDeliver s a).confirms = s.confirms := by
+  rcases cDeliver_cases s a with h' | ⟨_, s', hs', _⟩
+  · rw [h']
+  · obtain ⟨_, _, hreg, _, hi, _, _⟩ := cHandle_some hs'
+    rcases h with h | h
+    · exact absurd hreg h
+    · exact absurd hi h
 
-/-- Over ALL histories of confirmation attempts (any senders, orchestrators, keys, items, replays):
-every confirmation the chain holds names the key registered by the validator it is filed under and
-carries that key's signature over exactly its batch. -/
-theorem confirms_always_backed (regKey : Addr → Option Nat) (as : List CAttempt) :
-    ∀ s : CState, (∀ c ∈ s.confirms, CBacked regKey c) → ∀ c ∈ (cRun regKey s as).confirms, CBacked regKey c := by
-  induction as with
-  | nil => intro s h; exact h
-  | cons a rest ih =>
-    intro s h
-    simp only [cRun, List.foldl_cons]
-    exact ih (cDeliver regKey s a) (cDeliver_backed regKey s a h)
+/-- The confirmation model against the generic one: whenever the confirmations filed under `B`
+change, `B` is `Justified` by the SAME predicate as in `change_needs_authorisation`, second
+disjunct, with `regKey` := the accounts registered in the confirmation model (`regAcct s`) — the
+abstract `Env.regKey` / `extSigOk` of the generic model is instantiated by `cHandle`'s checks. -/
+theorem confirm_change_justified (authority : Addr) (s : CState) (a : CAttempt) (B : Addr)
+    (h : cView (cDeliver s a) B ≠ cView s B) :
+    Justified authority (regAcct s) s.grants a.signers B (cMsg a) := by
+  rcases cDeliver_cases s a with h0 | ⟨_, s', hs', hd⟩
+  · rw [h0] at h; exact absurd rfl h
+  · obtain ⟨rfl, _, hreg, _, hi, _, _⟩ := cHandle_some hs'
+    rw [hd] at h
+    have hB : a.orch = B := by
+      apply Classical.byContradiction
+      intro hne
+      apply h
+      simp [cView, List.filter_append, hne]
+    subst hB
+    right; left
+    exact ⟨"Orchestrator", by simp [cMsg], hreg, hi⟩
 
-/-- …and confirmations once stored are never altered or removed by later attempts (a validator's
-later own confirmation cannot be pre-empted by an entry it did not sign, see above, nor its stored
-one overwritten). -/
-theorem confirms_never_altered (regKey : Addr → Option Nat) (as : List CAttempt) :
-    ∀ s : CState, ∃ l, (cRun regKey s as).confirms = s.confirms ++ l := by
-  induction as with
+/-- Over ALL histories of confirmation attempts and key registrations: confirmations once stored
+are never altered or removed (a validator's stored confirmation cannot be overwritten, nor its later
+own one pre-empted by an entry it did not sign, see above). -/
+theorem confirms_never_altered (vals : List Addr) (ops : List COp) :
+    ∀ s : CState, ∃ l, (cRun vals s ops).confirms = s.confirms ++ l := by
+  induction ops with
   | nil => intro s; exact ⟨[], by simp [cRun]⟩
-  | cons a rest ih =>
+  | cons op rest ih =>
     intro s
-    obtain ⟨l1, h1⟩ := cDeliver_prefix regKey s a
-    obtain ⟨l2, h2⟩ := ih (cDeliver regKey s a)
-    refine ⟨l1 ++ l2, ?_⟩
-    simp only [cRun, List.foldl_cons] at h2 ⊢
-    rw [h2, h1, List.append_assoc]
+    obtain ⟨l2, h2⟩ := ih (cStep vals s op)
+    have h1 : ∃ l, (cStep vals s op).confirms = s.confirms ++ l := by
+      cases op with
+      | attempt a => exact cDeliver_prefix s a
+      | register r => exact ⟨[], by simp [cStep, (cRegDeliver_confirms vals s r).1]⟩
+    obtain ⟨l1, h1⟩ := h1
+    exact ⟨l1 ++ l2, by rw [cRun_cons, h2, h1, List.append_assoc]⟩
+
+/-- Provenance of every confirmation the chain holds after ANY history (attempts by anybody,
+registrations and re-registrations in between): it was there at the start, or the history contains
+the attempt that stored it — filed under that attempt's orchestrator, carrying a signature made by
+the key the orchestrator had registered AT THAT TIME, over exactly the batch, in a transaction that
+passed the decorator. -/
+theorem confirm_provenance (vals : List Addr) (c : CConfirm) :
+    ∀ (ops : List COp) (s : CState), c ∈ (cRun vals s ops).confirms →
+      c ∈ s.confirms ∨ ∃ pre a post, ops = pre ++ COp.attempt a :: post
+        ∧ c = ⟨a.batch, a.orch, a.ethSigner, a.sigKey, a.sigItem⟩
+        ∧ regAcct (cRun vals s pre) a.orch = some a.sigKey ∧ a.sigItem = a.batch
+        ∧ SignedOrGranted (cRun vals s pre).grants a.signers a.creator := by
+  intro ops
+  induction ops with
+  | nil => intro s h; exact Or.inl h
+  | cons op rest ih =>
+    intro s h
+    rw [cRun_cons] at h
+    rcases ih (cStep vals s op) h with h1 | ⟨pre, a, post, hops, hrest⟩
+    · cases op with
+      | attempt a =>
+        by_cases hold : c ∈ s.confirms
+        · exact Or.inl hold
+        · right
+          obtain ⟨_, _, hreg, hi, hso⟩ := confirm_appears_only_backed s a c h1 hold
+          refine ⟨[], a, rest, rfl, ?_, hreg, hi, hso⟩
+          rcases cDeliver_cases s a with h0 | ⟨_, s', hs', hd⟩
+          · simp only [cStep] at h1; rw [h0] at h1; exact absurd h1 hold
+          · obtain ⟨rfl, _⟩ := cHandle_some hs'
+            simp only [cStep] at h1
+            rw [hd] at h1
+            rcases List.mem_append.1 h1 with h2 | h2
+            · exact absurd h2 hold
+            · simpa using h2
+      | register r =>
+        left
+        simp only [cStep] at h1
+        rwa [(cRegDeliver_confirms vals s r).1] at h1
+    · right
+      exact ⟨op :: pre, a, post, by rw [hops]; rfl, hrest⟩
+
+/-- Clause "a validator's … external-chain accounts … change only through a transaction signed by
+that principal or by an address holding a fee grant from it": a registration changes the key of
+its CREATOR only, and only in a transaction the creator signed (or a grantee of it); every refused
+registration (decorator, non-validator, address string held by another validator) changes nothing. -/
+theorem key_change_authorised (vals : List Addr) (s : CState) (r : CReg) (v : Addr)
+    (h : (cRegDeliver vals s r).keys v ≠ s.keys v) :
+    v = r.creator ∧ SignedOrGranted s.grants r.signers r.creator ∧ v ∈ vals
+      ∧ ∀ w ∈ vals, w ≠ v → s.keys w ≠ some r.addr := by
+  rcases cRegDeliver_cases vals s r with h0 | ⟨hante, s', hs', hd⟩
+  · rw [h0] at h; exact absurd rfl h
+  · obtain ⟨hmem, hcol, rfl⟩ := cRegister_some hs'
+    rw [hd] at h
+    simp only at h
+    split at h
+    · rename_i hv
+      subst hv
+      exact ⟨rfl, (cRegAnteOk_iff r s.grants).1 hante, hmem, hcol⟩
+    · exact absurd rfl h
+
+/-- Provenance of the registered key itself — "the validator's OWN key": the address string
+validator `v` holds after any history was there at the start, or the history contains a
+registration in `v`'s own name (creator `v`; signed by `v` or by a fee grantee of `v`) for exactly
+that string, and `v` is a validator. -/
+theorem key_provenance (vals : List Addr) (v : Addr) (x : Nat) :
+    ∀ (ops : List COp) (s : CState), (cRun vals s ops).keys v = some x →
+      s.keys v = some x ∨ ∃ pre r post, ops = pre ++ COp.register r :: post
+        ∧ r.creator = v ∧ r.addr = x ∧ v ∈ vals
+        ∧ SignedOrGranted (cRun vals s pre).grants r.signers r.creator := by
+  intro ops
+  induction ops with
+  | nil => intro s h; exact Or.inl h
+  | cons op rest ih =>
+    intro s h
+    rw [cRun_cons] at h
+    rcases ih (cStep vals s op) h with h1 | ⟨pre, r, post, hops, hrest⟩
+    · cases op with
+      | attempt a =>
+        left
+        simp only [cStep] at h1
+        rwa [(cDeliver_keys s a).1] at h1
+      | register r =>
+        simp only [cStep] at h1
+        rcases cRegDeliver_cases vals s r with h0 | ⟨hante, s', hs', hd⟩
+        · left; rwa [h0] at h1
+        · obtain ⟨hmem, _, rfl⟩ := cRegister_some hs'
+          rw [hd] at h1
+          simp only at h1
+          split at h1
+          · rename_i hv
+            right
+            refine ⟨[], r, rest, rfl, hv.symm, Option.some.inj h1, by rw [hv]; exact hmem,
+              (cRegAnteOk_iff r s.grants).1 hante⟩
+          · exact Or.inl h1
+    · right
+      exact ⟨op :: pre, r, post, by rw [hops]; rfl, hrest⟩
+
+/-- Registered address STRINGS are unique over all histories: no two validators ever hold the same
+string, and only validators hold one (`SetExternalChainInfoState`'s collision rule).  From the
+initial state in particular. -/
+theorem registered_strings_injective (vals : List Addr) (ops : List COp) :
+    ∀ s : CState, KeysInv vals s → KeysInv vals (cRun vals s ops) := by
+  induction ops with
+  | nil => intro s h; exact h
+  | cons op rest ih => intro s h; rw [cRun_cons]; exact ih _ (cStep_keysInv vals s op h)
+
+theorem keysInv_init (vals : List Addr) : KeysInv vals cInit :=
+  ⟨fun _ _ h => by simp [cInit] at h, fun _ _ _ h => by simp [cInit] at h⟩
+
+/- "the validator's own key", full strength — the registered ACCOUNT (what a signature is
+   verified against) identifies the validator:
+
+     ∀ ops v w k, let s := cRun vals cInit ops; regAcct s v = some k → regAcct s w = some k → v = w
+
+   is FALSE in the model and in the implementation: the collision rule compares address STRINGS,
+   the confirmation handler compares parsed 20-byte accounts, and two spellings (hex case) of one
+   account are different strings.  Witness below; the true statements are
+   `registered_strings_injective` (strings) and `key_provenance` + `confirm_provenance`: whatever is
+   filed under `v` carries a signature by an account `v` ITSELF registered. -/
+
+/-- two validators holding the same account in different spellings is reachable … -/
+theorem registered_accounts_not_injective :
+    let s := cRun [20, 21] cInit [.register ⟨[20], 20, 80⟩, .register ⟨[21], 21, 81⟩]
+    regAcct s 20 = some 20 ∧ regAcct s 21 = some 20 := by decide
+
+/-- … and then a signature by that account's key is filed under whichever of the two is named
+first — here by 20 itself under 21 — after which 20's own confirmation of the batch is refused
+(one confirmation per key): the confirmation filed under 21 was signed by the key 21 itself chose
+to register, so nothing is attributed to 21 against its will, but 20's confirmation is lost. -/
+theorem shared_account_confirms_once :
+    (cRun [20, 21] cInit [.register ⟨[20], 20, 80⟩, .register ⟨[21], 21, 81⟩,
+      .attempt ⟨[20], 20, true, 1, 21, 20, 20, 1⟩, .attempt ⟨[20], 20, true, 1, 20, 20, 20, 1⟩]).confirms
+    = [⟨1, 21, 20, 20, 1⟩] := by decide
+
+/-- a stored confirmation is backed w.r.t. a key table: it names the account the validator it is
+    filed under registered, and carries that key's signature over exactly the batch it confirms -/
+def CBacked (keys : Addr → Option Nat) (c : CConfirm) : Prop :=
+  (keys c.orch).map acctOf = some c.key ∧ c.sigKey = c.key ∧ c.sigItem = c.batch
+
+/-- Without re-registrations in between (the situation of one batch's lifetime, and of the
+harness): every confirmation the chain holds is backed by the key table as it stands. -/
+theorem confirms_always_backed (vals : List Addr) (ops : List COp) (hnoreg : ∀ op ∈ ops, ∃ a, op = COp.attempt a) :
+    ∀ s : CState, (∀ c ∈ s.confirms, CBacked s.keys c) →
+      ∀ c ∈ (cRun vals s ops).confirms, CBacked s.keys c := by
+  induction ops with
+  | nil => intro s h; exact h
+  | cons op rest ih =>
+    intro s h
+    obtain ⟨a, rfl⟩ := hnoreg op (by simp)
+    rw [cRun_cons]
+    have hk : (cStep vals s (.attempt a)).keys = s.keys := (cDeliver_keys s a).1
+    have hstep : ∀ c ∈ (cStep vals s (.attempt a)).confirms, CBacked (cStep vals s (.attempt a)).keys c := by
+      intro c hc
+      rw [hk]
+      by_cases hold : c ∈ s.confirms
+      · exact h c hold
+      · simp only [cStep] at hc
+        rcases cDeliver_cases s a with h0 | ⟨_, s', hs', hd⟩
+        · rw [h0] at hc; exact absurd hc hold
+        · obtain ⟨rfl, _, hreg, hke, hi, _, _⟩ := cHandle_some hs'
+          rw [hd] at hc
+          rcases List.mem_append.1 hc with h2 | h2
+          · exact absurd h2 hold
+          · have : c = ⟨a.batch, a.orch, a.ethSigner, a.sigKey, a.sigItem⟩ := by simpa using h2
+            subst this
+            refine ⟨?_, hke, hi⟩
+            have : regAcct s a.orch = some a.ethSigner := by rw [hreg, hke]
+            exact this
+    have := ih (fun o ho => hnoreg o (by simp [ho])) (cStep vals s (.attempt a)) hstep
+    rw [hk] at this
+    exact this
 
 /-! ### The tables against the source (`Gen/Auth.lean`) -/
 
 open Paloma.Gen.Auth in
-/-- name used by the tables and the Go zoo -/
-def hname (h : Handler) : String := h.module ++ "." ++ h.method
-
-open Paloma.Gen.Auth in
-/-- rule compatible with what the extractor saw in the handler -/
+/-- rule compatible with what the extractor saw in the handler (first generation check, kept) -/
 def ruleCompat (h : Handler) : Bool :=
   match ruleOf (hname h) with
   | some .actsFor =>
@@ -755,89 +1748,230 @@ def rolesCompat (h : Handler) : Bool :=
     | some _ => true
 
 open Paloma.Gen.Auth in
-/-- `table_sound`, part 1: handlers and registered services coincide, and every one of them is
-classified (a new RPC makes this fail). -/
+/-- "for every message type the chain accepts": handlers and registered services coincide, every
+one of them is classified, names are unique (a new RPC makes this fail). -/
 theorem table_covers :
     (handlers.map fun h => (h.module, h.method)) = rpcs
     ∧ handlers.all (fun h => (ruleOf (hname h)).isSome) = true
     ∧ rules.all (fun r => handlers.any (fun h => hname h == r.1)) = true
-    ∧ rules.length = handlers.length := by
+    ∧ rules.length = handlers.length
+    ∧ handlers.all (fun h => (semOfGen (hname h)) == some (genSem h)) = true := by
   decide
 
 open Paloma.Gen.Auth in
-/-- `table_sound`, part 2: every rule is compatible with the handler's source: `actsFor` ⇒ the
-handler (or, where stated, its ValidateBasic) reads the creator; `authorityOnly` ⇒ it compares
-against the keeper's authority / calls the governance guard; `sigProven` ⇒ it reads the proven
-field.  A handler that stops reading the creator makes this fail. -/
-theorem table_sound : handlers.all ruleCompat = true := by
+/-- The table → step link, as a theorem about the SOURCE: the semantics computed from every
+handler's extracted facts is safe — every identity-bearing field that keys a write is compared with
+the creator (by the handler, a helper or ValidateBasic, unconditionally, returning an error on a
+mismatch) or signature-proven (and the handler does verify an external-chain signature), types
+signed by their `Authority` field are gated on it, governance-gated types tie the creator to the
+authority.  A handler that starts writing under `msg.Orchestrator` (or any field that is
+address-typed, parsed as an address or named like one) without such a comparison makes this fail —
+as the pinned tree's `SendToPalomaClaim` / `UpsertRelayerFee` do (`prefix_defects_fail_safety`). -/
+theorem handlers_safe : handlers.all (fun h => (genSem h).safe (hname h)) = true := handlers_safe_all
+
+open Paloma.Gen.Auth in
+set_option maxRecDepth 100000 in
+/-- The hand-written `rules` table (what the driver's verdicts use) is DETERMINED by the extracted
+semantics: `authorityOnly` ⇔ governance gated; `sigProven` ⇔ keyed by a signature-proven field and
+not by the creator; `actsFor` ⇔ keyed by the creator or a field compared with it; `open_` ⇔ keyed by
+nothing the sender controls.  Relabelling any of the 41 entries makes this fail. -/
+theorem rules_match_source :
+    handlers.all ruleAgrees = true
+    ∧ handlers.all (fun h => (genSem h).stateKeyed == (hname h == legacyType)) = true
+    ∧ (handlers.filter (fun h => match ruleOf (hname h) with | some (.open_ _) => true | _ => false)).map hname
+        = ["evm.RemoveSmartContractDeployment", "paloma.SetLegacyLightNodeClients"] := by
   decide
 
 open Paloma.Gen.Auth in
-/-- `table_sound`, part 3: every string / bytes field of every request type has a hand-written
-role and `equatedWithCreator` / `authorityField` / `sigProven` roles are backed by reads of both
-the field and the thing it is compared with.  A new field makes this fail. -/
-theorem roles_sound :
-    handlers.all rolesCompat = true
-    ∧ roles.all (fun r => handlers.any (fun h => hname h == r.1 && h.fields.any (·.1 == r.2.1))) = true := by
+set_option maxRecDepth 100000 in
+/-- "every identity-bearing field": the `roles` table against the source.  `equatedWithCreator` ⇔
+the field is compared with / overwritten by the creator (one listed exception resolved by lookup);
+`authorityField` ⇔ compared with the authority only; `sigProven` ⇒ a signature is verified; and
+NO identity-like field (address-typed, parsed as an address, named like one) is `freeText` unless
+it is listed, with its reason, in `notPrincipal`.  Relabelling a guarded or identity-like field
+`freeText` makes this fail. -/
+theorem roles_match_source :
+    handlers.all roleAgrees = true
+    ∧ roles.all (fun r => handlers.any (fun h => hname h == r.1 && h.fields.any (·.1 == r.2.1))) = true
+    ∧ notPrincipal.all (fun e => handlers.any (fun h => hname h == e.1 && h.idFields.contains e.2.1)) = true
+    ∧ equatedByLookup.all (fun e => roleOf e.1 e.2 == some .equatedWithCreator && isNotPrincipal e.1 e.2) = true := by
   decide
 
-/-- the `authoritySigned` / `creatorCheckedInValidateBasic` / `sigProvenField` side tables only
-    name classified types of the right kind -/
+/-- the explicit exceptions of the "never adds" clause: ALL fields of role `target` -/
+theorem targets_enumerated :
+    (roles.filter (fun r => r.2.2 == .target)).map (fun r => (r.1, r.2.1)) =
+      [("paloma.AddLightNodeClientLicense", "ClientAddress"), ("paloma.UpdateParams", "Params.GasExemptAddresses"),
+       ("scheduler.CreateJob", "Job.Permissions.Whitelist.Address"), ("scheduler.CreateJob", "Job.Permissions.Blacklist.Address"),
+       ("skyway.LightNodeSaleClaim", "ClientAddress"), ("skyway.SendToPalomaClaim", "PalomaReceiver"),
+       ("skyway.SendToRemote", "EthDest"), ("tokenfactory.ChangeAdmin", "NewAdmin")] := by
+  decide
+
+open Paloma.Gen.Auth in
+/-- first-generation compatibility checks (reads of the creator / the authority / the fields) -/
+theorem table_sound : handlers.all ruleCompat = true ∧ handlers.all rolesCompat = true := by
+  decide
+
+open Paloma.Gen.Auth in
+/-- the side tables: types signed by their `Authority` field are exactly those whose proto
+`cosmos.msg.v1.signer` option says so (all others: "metadata"); the governance-gated handlers that
+ignore the creator are exactly those without a comparison tying it to the authority; the other side
+tables only name classified types of the right kind -/
 theorem side_tables_sound :
-    authoritySigned.all (fun t => ruleOf t == some .authorityOnly) = true
+    (handlers.filter (fun h => h.signer == "authority")).map hname = authoritySigned
+    ∧ handlers.all (fun h => h.signer == "authority" || h.signer == "metadata") = true
+    ∧ (handlers.filter (fun h => isGov (genSem h) && !((genSem h).creatorIsAuthority
+          || (genSem h).eqAuthority.any (fun f => (genSem h).eqCreator.contains f)))).map hname = authorityIgnoresCreator
+    ∧ authoritySigned.all (fun t => ruleOf t == some .authorityOnly) = true
     ∧ creatorCheckedInValidateBasic.all (fun t => ruleOf t == some .actsFor) = true
     ∧ sigProvenField.all (fun p => ruleOf p.1 == some (.sigProven 0) && roleOf p.1 p.2 == some .sigProven) = true := by
   decide
 
-/-! ### Non-vacuity -/
+/-! ### Non-vacuity, reachability of the exceptions, and the defect class -/
 
 section Examples
 
-def exCfg : Cfg where
+/-- the real handler table; governance authority 99, light-node feegranter 50; validator 7
+registered key 7; handlers ADD a record `1` for a principal they write for when the message is
+about item 0 and REMOVE all its records otherwise; beneficiaries get a record `9`; governance
+handlers add `5` to the authority's settings and `6` to principal 4 -/
+def exEnv : Env where
   authority := 99
-  ruleOf := ruleOf
-  sigOk := fun m f => m.idField f == 7
+  lightFeegranter := 50
+  semOf := semOfGen
+  regKey := fun v => if v = 7 then some 7 else none
   handlerOk := fun _ _ => true
-  openEffect := fun _ s => s
+  eff := fun _ m _ v => if m.item = 0 then v ++ [1] else []
+  gift := fun _ _ _ => [9]
+  govEff := fun _ _ sl => fun x => if x = 99 then sl x ++ [5] else if x = 4 then sl x ++ [6] else sl x
+  pending := fun s x => (s.slots x).isEmpty
 
-def exState : State where
-  slots := fun _ => 0
-  grants := fun g e => g == 2 && e == 1
+def exMsg (typ : String) (signer creator : Addr) (fields : List (String × Addr)) (item : Nat := 0) : Msg :=
+  { typ := typ, signers := [signer], creator := creator,
+    field := fun f => (fields.find? (·.1 == f)).map (·.2), item := item }
 
-def exMsg (typ : String) (signer creator field : Addr) : Msg :=
-  { typ := typ, signers := [signer], creator := creator, idField := fun _ => field }
+def exTx (typ : String) (signer creator : Addr) (fields : List (String × Addr)) (item : Nat := 0) : Op :=
+  .tx ⟨[signer], [exMsg typ signer creator fields item]⟩
 
-/-- A signs for itself: its slot changes -/
-example : (deliver exCfg exState (exMsg "valset.KeepAlive" 1 1 0)).slots 1 = 1 := by decide
-/-- A signs with creator = B = 3 and no grant: rejected, nothing changes -/
-example : (deliver exCfg exState (exMsg "valset.KeepAlive" 1 3 0)).slots 3 = 0 := by decide
-/-- A signs with creator = B = 2 and a grant 2 → 1: accepted, B's slot changes -/
-example : (deliver exCfg exState (exMsg "valset.KeepAlive" 1 2 0)).slots 2 = 1 := by decide
-/-- governance message from a user: nothing; from the authority: the settings change -/
-example : (deliver exCfg exState (exMsg "skyway.OverrideNonceProposal" 1 1 0)).slots 99 = 0 := by decide
-example : (deliver exCfg exState (exMsg "skyway.OverrideNonceProposal" 99 99 0)).slots 99 = 1 := by decide
-/-- batch confirmation naming validator 7 with 7's signature (sigOk), sent by 1: 7's slot changes;
-    naming 8 (no valid signature): nothing -/
-example : (deliver exCfg exState (exMsg "skyway.ConfirmBatch" 1 1 7)).slots 7 = 1 := by decide
-example : (deliver exCfg exState (exMsg "skyway.ConfirmBatch" 1 1 8)).slots 8 = 0 := by decide
-/-- the history theorem's hypotheses are satisfiable on a non-trivial history -/
-example : (run exCfg exState [.grant 4 1, .tx (exMsg "valset.KeepAlive" 1 4 0), .tx (exMsg "tokenfactory.Mint" 1 3 3),
-    .revoke 4 1, .tx (exMsg "valset.KeepAlive" 1 4 0)]).slots 4 = 1 := by decide
-example : (run exCfg exState [.grant 4 1, .tx (exMsg "valset.KeepAlive" 1 4 0), .tx (exMsg "tokenfactory.Mint" 1 3 3),
-    .revoke 4 1, .tx (exMsg "valset.KeepAlive" 1 4 0)]).slots 3 = 0 := by decide
-
+/-- A signs for itself: a record is added; a second message about another item removes them -/
+example : (run exEnv init [exTx "valset.KeepAlive" 1 1 []]).slots 1 = [1] := by decide
+example : (run exEnv init [exTx "valset.KeepAlive" 1 1 [], exTx "valset.KeepAlive" 1 1 [] 3]).slots 1 = [] := by decide
+/-- A signs with creator = B = 3 and no grant: rejected, nothing changes; with a grant 3 → 1: A acts
+    for B; after the revocation: rejected again -/
+example : (run exEnv init [exTx "valset.KeepAlive" 1 3 []]).slots 3 = [] := by decide
+example : (run exEnv init [.grant 3 1, exTx "valset.KeepAlive" 1 3 []]).slots 3 = [1] := by decide
+example : (run exEnv init [.grant 3 1, exTx "valset.KeepAlive" 1 3 [], .revoke 3 1, exTx "valset.KeepAlive" 1 3 [] 3]).slots 3
+    = [1] := by decide
+/-- forged metadata: creator 3, metadata.signers [3], but the transaction is signed by 1 only -/
+example : (run exEnv init [.tx ⟨[1], [exMsg "valset.KeepAlive" 3 3 []]⟩]).slots 3 = [] := by decide
+/-- a claim naming 3 as orchestrator, sent by 1 (the pinned tree's defect): the comparison rejects;
+    3 itself may -/
+example : (run exEnv init [exTx "skyway.SendToPalomaClaim" 1 1 [("Orchestrator", 3)]]).slots 3 = [] := by decide
+example : (run exEnv init [exTx "skyway.SendToPalomaClaim" 1 1 [("Orchestrator", 3)]]).slots 1 = [] := by decide
+example : (run exEnv init [exTx "skyway.SendToPalomaClaim" 3 3 [("Orchestrator", 3)]]).slots 3 = [1] := by decide
+/-- relayer fee: keyed by the `ValAddress` field, compared with the creator by ValidateBasic -/
+example : (run exEnv init [exTx "treasury.UpsertRelayerFee" 1 1 [("FeeSetting.ValAddress", 3)]]).slots 3 = [] := by decide
+example : (run exEnv init [exTx "treasury.UpsertRelayerFee" 3 3 [("FeeSetting.ValAddress", 3)]]).slots 3 = [1] := by decide
+/-- governance: from a user nothing; in the authority's name without its signature nothing; from the
+    authority: settings change, and somebody else's records may (4) -/
+example : (run exEnv init [exTx "skyway.OverrideNonceProposal" 1 1 []]).slots 99 = [] := by decide
+example : (run exEnv init [exTx "skyway.OverrideNonceProposal" 1 99 []]).slots 99 = [] := by decide
+example : (run exEnv init [exTx "skyway.OverrideNonceProposal" 99 99 []]).slots 99 = [5] := by decide
+example : (run exEnv init [exTx "skyway.OverrideNonceProposal" 99 99 []]).slots 4 = [6] := by decide
+/-- a type signed by its `Authority` field: metadata is decorative, the field must be the authority
+    AND have signed -/
+example : (run exEnv init [.tx ⟨[99], [exMsg "skyway.UpdateParams" 1 1 [("Authority", 99)]]⟩]).slots 99 = [5] := by decide
+example : (run exEnv init [.tx ⟨[1], [exMsg "skyway.UpdateParams" 99 99 [("Authority", 1)]]⟩]).slots 99 = [] := by decide
+example : (run exEnv init [.tx ⟨[1], [exMsg "skyway.UpdateParams" 99 99 [("Authority", 99)]]⟩]).slots 99 = [] := by decide
+/-- batch confirmation naming validator 7 with a signature by 7's key over the item, relayed by 1:
+    filed under 7; by another key, or over another item: nothing -/
+example : (run exEnv init [.tx ⟨[1], [{ exMsg "skyway.ConfirmBatch" 1 1 [("Orchestrator", 7)] with sigKey := 7 }]⟩]).slots 7 = [1] := by decide
+example : (run exEnv init [.tx ⟨[1], [{ exMsg "skyway.ConfirmBatch" 1 1 [("Orchestrator", 7)] with sigKey := 8 }]⟩]).slots 7 = [] := by decide
+example : (run exEnv init [.tx ⟨[1], [{ exMsg "skyway.ConfirmBatch" 1 1 [("Orchestrator", 7)] with sigKey := 7, sigItem := 2 }]⟩]).slots 7 = [] := by decide
+/-- unknown message type: the transaction fails as a whole -/
+example : txAccepted exEnv init ⟨[1], [exMsg "valset.KeepAlive" 1 1 [], exMsg "bank.Send" 1 1 []]⟩ = false := by decide
+example : (run exEnv init [.tx ⟨[1], [exMsg "valset.KeepAlive" 1 1 [], exMsg "bank.Send" 1 1 []]⟩]).slots 1 = [] := by decide
 /-- the attack order: S = 1 holds a grant from G = 2 but none from B = 3; [creator G, creator B] and
-    its reverse are rejected as a whole (G's slot does not change either), [G, S] is accepted -/
-example : (deliverTx exCfg exState [exMsg "valset.KeepAlive" 1 2 0, exMsg "valset.KeepAlive" 1 3 0]).slots 3 = 0 := by decide
-example : (deliverTx exCfg exState [exMsg "valset.KeepAlive" 1 2 0, exMsg "valset.KeepAlive" 1 3 0]).slots 2 = 0 := by decide
-example : (deliverTx exCfg exState [exMsg "valset.KeepAlive" 1 3 0, exMsg "valset.KeepAlive" 1 2 0]).slots 2 = 0 := by decide
-example : txAccepted exCfg exState [exMsg "valset.KeepAlive" 1 2 0, exMsg "valset.KeepAlive" 1 3 0] = false := by decide
-example : (deliverTx exCfg exState [exMsg "valset.KeepAlive" 1 2 0, exMsg "tokenfactory.Mint" 1 1 0]).slots 2 = 1 := by decide
-example : (deliverTx exCfg exState [exMsg "valset.KeepAlive" 1 2 0, exMsg "tokenfactory.Mint" 1 1 0]).slots 1 = 1 := by decide
+    its reverse are rejected as a whole (G's records do not change either), [G, S] is accepted -/
+example : (run exEnv init [.grant 2 1, .tx ⟨[1], [exMsg "valset.KeepAlive" 1 2 [], exMsg "valset.KeepAlive" 1 3 []]⟩]).slots 3 = [] := by decide
+example : (run exEnv init [.grant 2 1, .tx ⟨[1], [exMsg "valset.KeepAlive" 1 2 [], exMsg "valset.KeepAlive" 1 3 []]⟩]).slots 2 = [] := by decide
+example : (run exEnv init [.grant 2 1, .tx ⟨[1], [exMsg "valset.KeepAlive" 1 3 [], exMsg "valset.KeepAlive" 1 2 []]⟩]).slots 2 = [] := by decide
+example : (run exEnv init [.grant 2 1, .tx ⟨[1], [exMsg "valset.KeepAlive" 1 2 [], exMsg "tokenfactory.Mint" 1 1 []]⟩]).slots 2 = [1] := by decide
 /-- atomicity: a governance message from a user at the end reverts the first message too -/
-example : (deliverTx exCfg exState [exMsg "valset.KeepAlive" 1 1 0, exMsg "skyway.OverrideNonceProposal" 1 1 0]).slots 1 = 0 := by decide
-example : (run exCfg exState [.mtx [exMsg "valset.KeepAlive" 1 2 0, exMsg "valset.KeepAlive" 1 3 0], .grant 3 1,
-    .mtx [exMsg "valset.KeepAlive" 1 2 0, exMsg "valset.KeepAlive" 1 3 0]]).slots 3 = 1 := by decide
+example : (run exEnv init [.tx ⟨[1], [exMsg "valset.KeepAlive" 1 1 [], exMsg "skyway.OverrideNonceProposal" 1 1 []]⟩]).slots 1 = [] := by decide
+/-- the hypotheses of `history_passive_unchanged` / `stranger_changes_nothing` are satisfiable on a
+    non-trivial history that changes other principals' records -/
+example : (run exEnv init [.grant 4 1, exTx "valset.KeepAlive" 1 4 [], exTx "tokenfactory.Mint" 1 1 [],
+    .revoke 4 1, exTx "valset.KeepAlive" 1 4 []]).slots 4 = [1] := by decide
+
+/-- executed governance proposals (no ante chain): the handlers' own gate still applies to the
+    governance-only types; any other message runs in whatever name the proposal says -/
+example : (run exEnv init [.gov (exMsg "skyway.OverrideNonceProposal" 99 99 [])]).slots 99 = [5] := by decide
+example : (run exEnv init [.gov (exMsg "skyway.OverrideNonceProposal" 1 1 [])]).slots 99 = [] := by decide
+example : (run exEnv init [.gov (exMsg "valset.KeepAlive" 99 3 [])]).slots 3 = [1] := by decide
+
+/-- `evm.RemoveSmartContractDeployment` (no sender check at all) touches no principal's records -/
+example : (run exEnv init [exTx "valset.KeepAlive" 3 3 [], exTx "evm.RemoveSmartContractDeployment" 1 1 []]).slots 3 = [1] := by decide
+
+/-- "never ADDS" is false for `target` fields: 1 signs for itself, names 3 as licence holder; no
+    message is `Justified` for 3, yet a record attributed to 3 appears -/
+theorem adds_clause_fails_for_target :
+    ∃ (env : Env) (s : State) (tx : Tx) (B : Addr), env.semOf = semOfGen
+      ∧ (∀ m ∈ tx.msgs, ¬ Justified env.authority env.regKey s.grants tx.signers B m)
+      ∧ (deliverTx env s tx).slots B ≠ s.slots B := by
+  refine ⟨exEnv, init, ⟨[1], [exMsg "paloma.AddLightNodeClientLicense" 1 1 [("ClientAddress", 3)]]⟩, 3, rfl, ?_, by decide⟩
+  intro m _
+  apply not_justified_of
+  · rintro (h | ⟨a, _, hg⟩)
+    · simp at h
+    · simp [init] at hg
+  · intro f _; left; simp [exEnv]
+  · rintro (h | ⟨a, _, hg⟩)
+    · simp [exEnv] at h
+    · simp [init] at hg
+
+/-- … and for the light-node migration: 3 holds a grant from the light-node feegranter 50; ANY
+    account (1) triggers the migration and a client record attributed to 3 appears -/
+theorem adds_clause_fails_for_light_node_migration :
+    ∃ (env : Env) (s : State) (tx : Tx) (B : Addr), env.semOf = semOfGen
+      ∧ (∀ m ∈ tx.msgs, ¬ Justified env.authority env.regKey s.grants tx.signers B m)
+      ∧ (deliverTx env s tx).slots B ≠ s.slots B := by
+  refine ⟨exEnv, run exEnv init [.grant 50 3], ⟨[1], [exMsg "paloma.SetLegacyLightNodeClients" 1 1 []]⟩, 3, rfl, ?_, by decide⟩
+  intro m _
+  apply not_justified_of
+  · rintro (h | ⟨a, ha, hg⟩)
+    · simp at h
+    · have ha' : a = 1 := by simpa using ha
+      subst ha'
+      revert hg; decide
+  · intro f _; left; simp [exEnv]
+  · rintro (h | ⟨a, ha, hg⟩)
+    · simp [exEnv] at h
+    · have ha' : a = 1 := by simpa using ha
+      subst ha'
+      revert hg; decide
+
+/-- only ADDED: an existing record of 3 stays in place -/
+example : (run exEnv init [exTx "valset.KeepAlive" 3 3 [],
+    exTx "paloma.AddLightNodeClientLicense" 1 1 [("ClientAddress", 3)]]).slots 3 = [1, 9] := by decide
+
+/-! The defect class the safety check rules out — the semantics the extractor computes for the
+pinned tree's (22c12540~1) claim and relayer-fee handlers: keyed by the field, no comparison. -/
+
+def preFixClaim : Sem := { usesCreator := true, keyed := ["Orchestrator"], targets := ["PalomaReceiver"] }
+def preFixFee : Sem := { keyed := ["FeeSetting.ValAddress"] }
+
+theorem prefix_defects_fail_safety :
+    Sem.safe "skyway.SendToPalomaClaim" preFixClaim = false ∧ Sem.safe "treasury.UpsertRelayerFee" preFixFee = false := by
+  decide
+
+def preFixEnv : Env := { exEnv with semOf := fun t =>
+  if t = "skyway.SendToPalomaClaim" then some preFixClaim
+  else if t = "treasury.UpsertRelayerFee" then some preFixFee else semOfGen t }
+
+/-- … and with them the model does what the pinned tree did: 1 votes as 3, 1 removes 3's fee -/
+example : (run preFixEnv init [exTx "skyway.SendToPalomaClaim" 1 1 [("Orchestrator", 3)]]).slots 3 = [1] := by decide
+example : (run preFixEnv init [exTx "treasury.UpsertRelayerFee" 3 3 [("FeeSetting.ValAddress", 3)],
+    exTx "treasury.UpsertRelayerFee" 1 1 [("FeeSetting.ValAddress", 3)] 3]).slots 3 = [] := by decide
 
 /-! hand-over histories: denom 1 is named after account 10 -/
 def exNamer : Nat → Addr := fun _ => 10
@@ -862,22 +1996,37 @@ example : dView (dRun exNamer dInit [exD 11 11 .create]) 1 = (none, 0) := by dec
 example : dAccepted exNamer (dRun exNamer dInit [exD 10 10 .create])
     { signers := [10], creator := 10, denom := 1, act := .changeAdmin (some 22) } = true := by decide
 
-/-! confirmations: validators 20, 21 registered keys 20, 21; batch 1 -/
-def exReg : Addr → Option Nat := fun v => if v = 20 then some 20 else if v = 21 then some 21 else none
-def exC0 : CState := { confirms := [], grants := fun _ _ => false }
-def exAtt (sender orch ethSigner sigKey sigItem : Nat) : CAttempt :=
-  { signers := [sender], creator := sender, batchExists := true, batch := 1, orch := orch, ethSigner := ethSigner,
-    sigKey := sigKey, sigItem := sigItem }
+/-! confirmations: validators 20, 21 registered (canonical spellings of) keys 20, 21; batch 1 -/
+def exC0 : CState where
+  confirms := []
+  grants := fun _ _ => false
+  keys := fun v => if v = 20 then some 80 else if v = 21 then some 84 else none
+
+/-- attempt on batch 1: sender, orchestrator, key named, key that signed, item signed -/
+def exAtt (sender orch ethSigner sigKey sigItem : Nat) : COp :=
+  .attempt ⟨[sender], sender, true, 1, orch, ethSigner, sigKey, sigItem⟩
 
 /-- honest; relayed by user 10 with 21's own signature: both stored -/
-example : (cRun exReg exC0 [exAtt 20 20 20 20 1, exAtt 10 21 21 21 1]).confirms
+example : (cRun [20, 21] exC0 [exAtt 20 20 20 20 1, exAtt 10 21 21 21 1]).confirms
     = [⟨1, 20, 20, 20, 1⟩, ⟨1, 21, 21, 21, 1⟩] := by decide
 /-- validator 20 files its own key and genuine signature under 21; 21's key named but 20's
     signature; 21's signature over another batch: nothing stored, and 21 can still confirm -/
-example : (cRun exReg exC0 [exAtt 20 21 20 20 1, exAtt 20 21 21 20 1, exAtt 20 21 21 21 2, exAtt 21 21 21 21 1]).confirms
+example : (cRun [20, 21] exC0 [exAtt 20 21 20 20 1, exAtt 20 21 21 20 1, exAtt 20 21 21 21 2, exAtt 21 21 21 21 1]).confirms
     = [⟨1, 21, 21, 21, 1⟩] := by decide
 /-- replay: once per validator -/
-example : (cRun exReg exC0 [exAtt 20 20 20 20 1, exAtt 21 20 20 20 1]).confirms = [⟨1, 20, 20, 20, 1⟩] := by decide
+example : (cRun [20, 21] exC0 [exAtt 20 20 20 20 1, exAtt 21 20 20 20 1]).confirms = [⟨1, 20, 20, 20, 1⟩] := by decide
+/-- registration from the initial state: a second validator naming the same STRING is refused, a
+    non-validator is refused, a registration in 21's name by 20 without a grant is refused; then 21
+    confirms with the key it registered -/
+example : ((cRun [20, 21] cInit [.register ⟨[20], 20, 80⟩, .register ⟨[21], 21, 80⟩, .register ⟨[30], 30, 88⟩,
+    .register ⟨[20], 21, 84⟩]).keys 21, (cRun [20, 21] cInit [.register ⟨[20], 20, 80⟩, .register ⟨[21], 21, 80⟩,
+    .register ⟨[30], 30, 88⟩, .register ⟨[20], 21, 84⟩]).keys 30) = (none, none) := by decide
+example : (cRun [20, 21] cInit [.register ⟨[20], 20, 80⟩, .register ⟨[21], 21, 84⟩, exAtt 21 21 21 21 1]).confirms
+    = [⟨1, 21, 21, 21, 1⟩] := by decide
+/-- key rotation: 20 moves to key 22, 21 takes over 20's old key — 21 cannot confirm the batch 20
+    already confirmed with it -/
+example : (cRun [20, 21] cInit [.register ⟨[20], 20, 80⟩, exAtt 20 20 20 20 1, .register ⟨[20], 20, 88⟩,
+    .register ⟨[21], 21, 80⟩, exAtt 21 21 20 20 1]).confirms = [⟨1, 20, 20, 20, 1⟩] := by decide
 
 end Examples
 
